@@ -51,27 +51,24 @@ Definition pre_exit (p : phase) : bool :=
   match p with PIdle | PReadDone | PHandling | PInHandler | PReplied | PLeaving => true | _ => false end.
 
 Record cinv (k : cfg) (x : conn) : Prop := {
-  ci_close : close_cb x = match ph x with PDone => if on_close k then 1 else 0 | _ => 0 end;
+  ci_close : close_cb x = match ph x with PDone | PDropped => if on_close k then 1 else 0 | _ => 0 end;
   ci_inmap : inmap x = true -> is_live (ph x) = true;
   ci_hand : handling_ph (ph x) = true -> cst x = CHandling;
-  ci_owed : cst x = CIdle -> owed x = [];
-  ci_rej : ph x = PRejected -> sock x = false;
+  ci_owedph : owed x <> [] -> ph x = PInHandler \/ (ph x = PHandling /\ resp x = true);
+  ci_rej : ph x = PRejected \/ ph x = PDropping \/ ph x = PDropped -> sock x = false;
   ci_del : is_live (ph x) = true -> inmap x = false -> sock x = false;
-  ci_via : sd_via x <> ViaNone -> cst x = CClosed \/ sd_via x = ViaLoadIdle;
+  ci_via : sd_via x <> ViaNone -> cst x = CClosed;
   ci_sock : sock x = false -> pre_exit (ph x) = true -> sd_via x <> ViaNone;
-  ci_lost : lost x <> 0 -> sd_via x = ViaLoadIdle;
-  ci_cas : sd_via x = ViaCas -> owed x = [];
+  ci_lost : lost x = 0;
   ci_arg : forall n, acc_arg x = Some n -> n = (live_at_cb x + 1)%Z;
-  ci_acc : ph x = PAccepted -> sock x = true /\ sd_via x = ViaNone;
-  ci_noresp : ph x = PHandling -> resp x = false -> owed x = [];
-  ci_repl : ph x = PReplied -> owed x = []
+  ci_acc : ph x = PAccepted -> sock x = true /\ sd_via x = ViaNone
 }.
 
 Definition sd_busy (p : sdpc) : bool :=
   match p with SdPass _ _ | SdFailed _ _ _ | SdClosing _ _ _ | SdWait => true | _ => false end.
 
 Definition sp_conn (p : spc) : option nat :=
-  match p with SAccepted c | SRejected c | SPassed c | STrack c => Some c | _ => None end.
+  match p with SAccepted c | SRejected c | SPassed c | STrack c | SDrop c _ => Some c | _ => None end.
 
 Record inv (k : cfg) (s : state) : Prop := {
   i_crash : crashed s = false;
@@ -80,11 +77,12 @@ Record inv (k : cfg) (s : state) : Prop := {
   i_mu : mu s = sd_busy (sd s);
   i_closing : forall c t a, sd s = SdClosing c t a -> exists x, get s c = Some x /\ sd_via x <> ViaNone /\ inmap x = true;
   i_failed : forall c t a, sd s = SdFailed c t a -> exists x, get s c = Some x /\ inmap x = true;
-  i_sp : forall c, sp_conn (sp s) = Some c -> exists x, get s c = Some x /\ ph x = PAccepted
+  i_sp : forall c, sp_conn (sp s) = Some c -> exists x, get s c = Some x /\ ph x = PAccepted;
+  i_spd : forall c r, sp s = SDropCb c r -> exists x, get s c = Some x /\ ph x = PDropping
 }.
 
 Lemma cinv_new k : cinv k new_conn.
-Proof. constructor; cbn; intros; try discriminate; try congruence; auto. Qed.
+Proof. constructor; cbn; intros; try discriminate; try congruence; auto; intuition discriminate. Qed.
 
 Lemma inv_init k : inv k init.
 Proof. constructor; cbn; auto; intros; discriminate. Qed.
@@ -95,7 +93,7 @@ Ltac crec x := destruct x as [xph xcst xsock xinmap xresp xcc xpan xpend xcb xac
 Ltac cinv_tac :=
   match goal with
   | H : cinv _ ?x |- cinv _ _ =>
-      destruct H as [H1 H2 H3 H4 H5 H6 H7 H8 H9 H10 H11 H12 H13 H14]; crec x; unfold via_set in *; cbn in *; subst;
+      destruct H as [H1 H2 H3 H4 H5 H6 H7 H8 H9 H10 H11]; crec x; unfold via_set in *; cbn in *; subst;
       constructor; cbn in *; intros;
       try match goal with E : on_close ?k = _ |- context [on_close ?k] => rewrite E end;
       repeat match goal with
@@ -161,17 +159,32 @@ Ltac t_sp Hsp Hd :=
     | exists x0; split; [unfold get, put in *; cbn; rewrite nth_upd_other by assumption; assumption|assumption] ]
   end.
 
+Ltac t_spd Hspd Hd :=
+  cbn; intros c0 r0 Hc0;
+  destruct (Hspd _ _ Hc0) as [x0 [Hg0 Hp0]];
+  match type of Hd with get ?s ?d = Some ?x =>
+    destruct (Nat.eq_dec d c0) as [->|Hne];
+    [ rewrite Hg0 in Hd; injection Hd as <-;
+      first [ congruence
+            | eexists; split; [unfold get, put in *; cbn; eapply nth_upd_same; eassumption|];
+              crec x0; unfold via_set in *; cbn in *; try assumption;
+              repeat match goal with |- context [match ?v with ViaNone => _ | _ => _ end] => destruct v; cbn in * end; congruence ]
+    | exists x0; split; [unfold get, put in *; cbn; rewrite nth_upd_other by assumption; assumption|assumption] ]
+  end.
+
+Ltac unf H := unfold step, GuardNow in H; cbn [v_guard_old v_load_old v_track_old v_drop_old v_nil_old] in H.
+
 Ltac fin0 := constructor; cbn; auto; try congruence; try (intros; discriminate).
-Ltac fin Hc Hn Hf Hm Hcl Hfl Hsp Hg :=
-  constructor; [cbn; assumption | t_count Hg | t_conns Hf Hg | cbn; congruence | t_closing Hcl Hg | t_closing Hfl Hg | t_sp Hsp Hg].
+Ltac fin Hc Hn Hf Hm Hcl Hfl Hsp Hspd Hg :=
+  constructor; [cbn; assumption | t_count Hg | t_conns Hf Hg | cbn; congruence | t_closing Hcl Hg | t_closing Hfl Hg | t_sp Hsp Hg | t_spd Hspd Hg].
 Ltac cs H := apply conn_step_some in H as (x & y & Hg & Hpe & Hph & Hy & ->).
 
 Lemma inv_step k s l s' : inv k s -> step GuardNow k s l = Some s' -> inv k s'.
 Proof.
-  intros [Hc Hn Hf Hm Hcl Hfl Hsp] H. unfold step in H. rewrite Hc in H.
+  intros [Hc Hn Hf Hm Hcl Hfl Hsp Hspd] H. unf H. rewrite Hc in H.
   destruct l.
   - (* LServeCb *) brk H. injection H as <-. fin0.
-  - (* LPublish *) brk H. injection H as <-. fin0.
+  - (* LPublish *) brk H; injection H as <-; fin0.
   - (* LAccept *) destruct (sp s) eqn:Esp; try discriminate.
     destruct (lis_open s && Nat.eqb c (length (conns s))) eqn:Heqb; try discriminate. injection H as <-.
     apply andb_prop in Heqb as [Hlo Hcl0]. apply Nat.eqb_eq in Hcl0. subst c.
@@ -189,6 +202,7 @@ Proof.
     + intros c0 Hc0. exists new_conn. split; [|reflexivity].
       assert (c0 = length (conns s)) by (destruct (on_accept k); cbn in Hc0; congruence). subst c0.
       destruct (on_accept k); unfold get; cbn; rewrite nth_error_app2 by lia; rewrite Nat.sub_diag; reflexivity.
+    + intros c0 r0 Hc0. destruct (on_accept k); discriminate.
   - (* LAcceptCb *)
     destruct (sp s) eqn:Esp; try discriminate. destruct (get s c) as [x|] eqn:Hg; try discriminate.
     destruct (Nat.eqb c c0 && on_accept k && (n =? count s + 1)%Z) eqn:E; try discriminate.
@@ -199,48 +213,68 @@ Proof.
     + destruct ok; cbn; assumption.
     + destruct ok; t_count Hg.
     + destruct ok; cbn; (apply Forall_upd; [exact Hf|]); pose proof (Forall_nthe _ _ _ _ Hf Hg) as Hx;
-        (destruct Hx as [H1 H2 H3 H4 H5 H6 H7 H8 H9 H10 H11 H12 H13 H14]; crec x; cbn in *; constructor; cbn; auto;
+        (destruct Hx as [H1 H2 H3 H4 H5 H6 H7 H8 H9 H10 H11]; crec x; cbn in *; constructor; cbn; auto;
          intros n Hn'; injection Hn' as <-; rewrite Hn; reflexivity).
     + destruct ok; cbn; congruence.
     + destruct ok; t_closing Hcl Hg.
     + destruct ok; t_closing Hfl Hg.
     + destruct ok; cbn; intros c0 Hc0; injection Hc0 as <-; eexists; (split; [unfold get, put in *; cbn; eapply nth_upd_same; eassumption|]);
         crec x; cbn in *; assumption.
+    + destruct ok; cbn; intros; discriminate.
   - (* LRejectClose *)
     destruct (sp s) eqn:Esp; try discriminate. destruct (get s c) as [x|] eqn:Hg; try discriminate.
     destruct (Nat.eqb c c0) eqn:E; try discriminate. apply Nat.eqb_eq in E. subst c0. injection H as <-.
     destruct (Hsp c eq_refl) as [x1 [Hg1 Hp1]]. rewrite Hg in Hg1. injection Hg1 as <-.
-    constructor; [cbn; assumption | t_count Hg | t_conns Hf Hg | cbn; congruence | t_closing Hcl Hg | t_closing Hfl Hg | cbn; intros; discriminate].
+    constructor; [cbn; assumption | t_count Hg | t_conns Hf Hg | cbn; congruence | t_closing Hcl Hg | t_closing Hfl Hg | cbn; intros; discriminate | cbn; intros; discriminate].
   - (* LCtxPass *) brk H. injection H as <-. apply andb_prop in Heqb as [E _]. apply Nat.eqb_eq in E. subst c0.
-    constructor; cbn; auto; intros c0 Hc0; injection Hc0 as <-; apply Hsp; reflexivity.
+    constructor; cbn; auto; try (intros; discriminate); intros c0 Hc0; injection Hc0 as <-; apply Hsp; reflexivity.
+  - (* LCtxDone *) brk H. injection H as <-. apply andb_prop in Heqb as [E _]. apply andb_prop in E as [E _]. apply Nat.eqb_eq in E. subst c0.
+    constructor; cbn; auto; try (intros; discriminate); intros c0 Hc0; injection Hc0 as <-; apply Hsp; reflexivity.
   - (* LTrack *)
     destruct (sp s) eqn:Esp; try discriminate. destruct (get s c) as [x|] eqn:Hg; try discriminate.
     destruct (Nat.eqb c c0 && negb (mu s)) eqn:E; try discriminate. apply andb_prop in E as [E E2].
-    apply Nat.eqb_eq in E. subst c0. injection H as <-.
+    apply Nat.eqb_eq in E. subst c0.
     destruct (Hsp c eq_refl) as [x1 [Hg1 Hp1]]. rewrite Hg in Hg1. injection Hg1 as <-.
-    constructor; [cbn; assumption | t_count Hg | t_conns Hf Hg | cbn; congruence | t_closing Hcl Hg | t_closing Hfl Hg | cbn; intros; discriminate].
+    destruct (shut s && negb false) eqn:Esh; injection H as <-.
+    + constructor; cbn; auto; try (intros; discriminate); intros c0 Hc0; injection Hc0 as <-; eauto.
+    + constructor; [cbn; assumption | t_count Hg | t_conns Hf Hg | cbn; congruence | t_closing Hcl Hg | t_closing Hfl Hg
+                    | cbn; intros; discriminate | cbn; intros; discriminate].
+  - (* LDropClose *)
+    destruct (sp s) eqn:Esp; try discriminate. destruct (get s c) as [x|] eqn:Hg; try discriminate.
+    destruct (Nat.eqb c c0) eqn:E; try discriminate. apply Nat.eqb_eq in E. subst c0. injection H as <-.
+    destruct (Hsp c eq_refl) as [x1 [Hg1 Hp1]]. rewrite Hg in Hg1. injection Hg1 as <-.
+    constructor; [cbn; assumption | t_count Hg | t_conns Hf Hg | cbn; congruence | t_closing Hcl Hg | t_closing Hfl Hg
+                  | cbn; intros; discriminate | ].
+    cbn. intros c0 r0 Hc0. injection Hc0 as <- <-. eexists. split; [unfold get, put in *; cbn; eapply nth_upd_same; eassumption|reflexivity].
+  - (* LDropCb *)
+    destruct (sp s) eqn:Esp; try discriminate. destruct (get s c) as [x|] eqn:Hg; try discriminate.
+    destruct (Nat.eqb c c0) eqn:E; try discriminate. apply Nat.eqb_eq in E. subst c0. injection H as <-.
+    destruct (Hspd c ret eq_refl) as [x1 [Hg1 Hp1]]. rewrite Hg in Hg1. injection Hg1 as <-.
+    destruct (on_close k) eqn:Eoc; destruct ret;
+    (constructor; [cbn; assumption | t_count Hg | t_conns Hf Hg | cbn; congruence | t_closing Hcl Hg | t_closing Hfl Hg
+                  | cbn; intros; discriminate | cbn; intros; discriminate]).
   - (* LServeReturn *) brk H; injection H as <-; fin0.
-  - (* LConnRead *) cs H. brk Hy; injection Hy as <-; fin Hc Hn Hf Hm Hcl Hfl Hsp Hg.
-  - (* LConnCtxExit *) cs H. brk Hy; injection Hy as <-; fin Hc Hn Hf Hm Hcl Hfl Hsp Hg.
-  - (* LHandleStart *) cs H. brk Hy; injection Hy as <-; fin Hc Hn Hf Hm Hcl Hfl Hsp Hg.
-  - (* LHandlerStart *) cs H. brk Hy; injection Hy as <-; fin Hc Hn Hf Hm Hcl Hfl Hsp Hg.
-  - (* LHandlerEnd *) cs H. brk Hy; injection Hy as <-; fin Hc Hn Hf Hm Hcl Hfl Hsp Hg.
-  - (* LProtoReply *) cs H. brk Hy; injection Hy as <-; fin Hc Hn Hf Hm Hcl Hfl Hsp Hg.
-  - (* LReplyWrite *) cs H. brk Hy; injection Hy as <-; fin Hc Hn Hf Hm Hcl Hfl Hsp Hg.
+  - (* LConnRead *) cs H. brk Hy; injection Hy as <-; fin Hc Hn Hf Hm Hcl Hfl Hsp Hspd Hg.
+  - (* LConnCtxExit *) cs H. brk Hy; injection Hy as <-; fin Hc Hn Hf Hm Hcl Hfl Hsp Hspd Hg.
+  - (* LHandleStart *) cs H. brk Hy; injection Hy as <-; fin Hc Hn Hf Hm Hcl Hfl Hsp Hspd Hg.
+  - (* LHandlerStart *) cs H. brk Hy; injection Hy as <-; fin Hc Hn Hf Hm Hcl Hfl Hsp Hspd Hg.
+  - (* LHandlerEnd *) cs H. brk Hy; injection Hy as <-; fin Hc Hn Hf Hm Hcl Hfl Hsp Hspd Hg.
+  - (* LProtoReply *) cs H. brk Hy; injection Hy as <-; fin Hc Hn Hf Hm Hcl Hfl Hsp Hspd Hg.
+  - (* LReplyWrite *) cs H. brk Hy; injection Hy as <-; fin Hc Hn Hf Hm Hcl Hfl Hsp Hspd Hg.
   - (* LHandleEnd *)
-    destruct (get s c) as [x|] eqn:Hg; try discriminate. brk H; injection H as <-; fin Hc Hn Hf Hm Hcl Hfl Hsp Hg.
+    destruct (get s c) as [x|] eqn:Hg; try discriminate. brk H; injection H as <-; fin Hc Hn Hf Hm Hcl Hfl Hsp Hspd Hg.
   - (* LErrCb *)
-    destruct (get s c) as [x|] eqn:Hg; try discriminate. brk H; injection H as <-; fin Hc Hn Hf Hm Hcl Hfl Hsp Hg.
-  - (* LConnLeave *) cs H. brk Hy; injection Hy as <-; fin Hc Hn Hf Hm Hcl Hfl Hsp Hg.
-  - (* LConnExit *) cs H. brk Hy; injection Hy as <-; fin Hc Hn Hf Hm Hcl Hfl Hsp Hg.
+    destruct (get s c) as [x|] eqn:Hg; try discriminate. brk H; injection H as <-; fin Hc Hn Hf Hm Hcl Hfl Hsp Hspd Hg.
+  - (* LConnLeave *) cs H. brk Hy; injection Hy as <-; fin Hc Hn Hf Hm Hcl Hfl Hsp Hspd Hg.
+  - (* LConnExit *) cs H. brk Hy; injection Hy as <-; fin Hc Hn Hf Hm Hcl Hfl Hsp Hspd Hg.
   - (* LUntrack *)
     destruct (mu s) eqn:Emu; try discriminate.
     destruct (conn_step s c PExited _) as [s1|] eqn:E1; try discriminate. injection H as <-.
-    cs E1. injection Hy as <-. fin Hc Hn Hf Hm Hcl Hfl Hsp Hg.
+    cs E1. injection Hy as <-. fin Hc Hn Hf Hm Hcl Hfl Hsp Hspd Hg.
   - (* LCloseCb *)
     destruct (conn_step s c PUntracked _) as [s1|] eqn:E1; try discriminate.
-    cs E1. injection Hy as <-. unfold close_guard in *.
-    destruct (on_close k) eqn:Eoc; cbn in H; injection H as <-; fin Hc Hn Hf Hm Hcl Hfl Hsp Hg.
+    cs E1. injection Hy as <-. unfold close_guard in *. cbn [v_guard_old] in *.
+    destruct (on_close k) eqn:Eoc; cbn in H; injection H as <-; fin Hc Hn Hf Hm Hcl Hfl Hsp Hspd Hg.
   - (* LSdCall *) brk H; injection H as <-; fin0.
   - (* LSdBegin *) brk H; injection H as <-; fin0.
   - (* LSdCas *)
@@ -248,7 +282,7 @@ Proof.
     destruct (mem_nat c todo && inmap x) eqn:E; try discriminate. apply andb_prop in E as [E1 E2].
     destruct (cst x) eqn:Ecst; injection H as <-.
     + constructor; [cbn; assumption | unfold via_set; destruct (sd_via x); t_count Hg | t_conns Hf Hg
-                    | cbn; rewrite Hm; reflexivity | | cbn; intros; discriminate | t_sp Hsp Hg].
+                    | cbn; rewrite Hm; reflexivity | | cbn; intros; discriminate | t_sp Hsp Hg | t_spd Hspd Hg].
       cbn. intros c0 t0 a0 Hsd. injection Hsd as <- <- <-. eexists. split; [unfold get, put in *; cbn; eapply nth_upd_same; eassumption|].
       crec x; unfold via_set; cbn in *; destruct xvia; cbn; split; congruence.
     + constructor; cbn; auto; try (intros; discriminate).
@@ -260,13 +294,10 @@ Proof.
     destruct (Nat.eqb c c0) eqn:E; try discriminate. apply Nat.eqb_eq in E. subst c0.
     destruct (Hfl _ _ _ eq_refl) as [x1 [Hg1 Hin]]. rewrite Hg in Hg1. injection Hg1 as <-.
     destruct (cst x) eqn:Ecst; injection H as <-.
-    + constructor; [cbn; assumption | t_count Hg | t_conns Hf Hg
-                    | cbn; rewrite Hm; reflexivity | | cbn; intros; discriminate | t_sp Hsp Hg].
-      cbn. intros c0 t0 a0 Hsd. injection Hsd as <- <- <-. eexists. split; [unfold get, put in *; cbn; eapply nth_upd_same; eassumption|].
-      crec x; cbn in *; split; congruence.
+    + constructor; cbn; auto; try (intros; discriminate).
     + constructor; cbn; auto; try (intros; discriminate).
     + constructor; [cbn; assumption | unfold via_set; destruct (sd_via x); t_count Hg | t_conns Hf Hg
-                    | cbn; rewrite Hm; reflexivity | | cbn; intros; discriminate | t_sp Hsp Hg].
+                    | cbn; rewrite Hm; reflexivity | | cbn; intros; discriminate | t_sp Hsp Hg | t_spd Hspd Hg].
       cbn. intros c0 t0 a0 Hsd. injection Hsd as <- <- <-. eexists. split; [unfold get, put in *; cbn; eapply nth_upd_same; eassumption|].
       crec x; unfold via_set; cbn in *; destruct xvia; cbn; split; congruence.
   - (* LSdClose *)
@@ -274,7 +305,7 @@ Proof.
     destruct (Nat.eqb c c0) eqn:E; try discriminate. apply Nat.eqb_eq in E. subst c0. injection H as <-.
     destruct (Hcl _ _ _ eq_refl) as [x1 [Hg1 [Hv Hin]]]. rewrite Hg in Hg1. injection Hg1 as <-.
     constructor; [cbn; assumption | t_count Hg | t_conns Hf Hg
-                    | cbn; rewrite Hm; reflexivity | cbn; intros; discriminate | cbn; intros; discriminate | t_sp Hsp Hg].
+                    | cbn; rewrite Hm; reflexivity | cbn; intros; discriminate | cbn; intros; discriminate | t_sp Hsp Hg | t_spd Hspd Hg].
   - (* LSdPassEnd *) brk H; injection H as <-; fin0.
   - (* LSdRetry *) brk H; injection H as <-; fin0.
   - (* LSdTimeout *) brk H; injection H as <-; fin0.
@@ -322,15 +353,27 @@ Qed.
 Theorem rejected_closed k s c x : reach GuardNow k s -> get s c = Some x -> ph x = PRejected ->
   sock x = false /\ inmap x = false /\ close_cb x = 0.
 Proof.
-  intros R G P. pose proof (reach_get_cinv _ _ _ _ R G) as [H1 H2 H3 H4 H5 H6 H7 H8 H9 H10 H11 H12 H13 H14].
-  split; [auto|]. split.
+  intros R G P. pose proof (reach_get_cinv _ _ _ _ R G) as [H1 H2 H3 H4 H5 H6 H7 H8 H9 H10 H11].
+  split; [apply H5; left; exact P|]. split.
+  - destruct (inmap x) eqn:E; [|reflexivity]. specialize (H2 eq_refl). rewrite P in H2. discriminate.
+  - rewrite H1, P. reflexivity.
+Qed.
+
+(* a connection that was let through but is not served (context cancelled while it was being accepted,
+   or Shutdown ran before it could be tracked) is closed by serve and is reported to the close callback
+   exactly once iff that is set *)
+Theorem dropped_closed k s c x : reach GuardNow k s -> get s c = Some x -> ph x = PDropped ->
+  sock x = false /\ inmap x = false /\ close_cb x = (if on_close k then 1 else 0).
+Proof.
+  intros R G P. pose proof (reach_get_cinv _ _ _ _ R G) as [H1 H2 H3 H4 H5 H6 H7 H8 H9 H10 H11].
+  split; [apply H5; right; right; exact P|]. split.
   - destruct (inmap x) eqn:E; [|reflexivity]. specialize (H2 eq_refl). rewrite P in H2. discriminate.
   - rewrite H1, P. reflexivity.
 Qed.
 
 (* (d) close callback: once iff set when the goroutine is done, zero before; never twice *)
 Theorem close_cb_exact k s c x : reach GuardNow k s -> get s c = Some x ->
-  close_cb x = match ph x with PDone => if on_close k then 1 else 0 | _ => 0 end.
+  close_cb x = match ph x with PDone | PDropped => if on_close k then 1 else 0 | _ => 0 end.
 Proof. intros R G. apply (ci_close _ _ (reach_get_cinv _ _ _ _ R G)). Qed.
 
 (* a rejected connection is never tracked: PRejected is absorbing *)
@@ -350,10 +393,10 @@ Ltac same G := eexists; split; [exact G|assumption].
 Lemma rejected_stays k s l s' c xr : reach GuardNow k s -> step GuardNow k s l = Some s' ->
   get s c = Some xr -> ph xr = PRejected -> exists x', get s' c = Some x' /\ ph x' = PRejected.
 Proof.
-  intros R H G P. pose proof (reach_inv _ _ R) as [Hc Hn Hf Hm Hcl Hfl Hsp].
-  unfold step in H. rewrite Hc in H. destruct l.
+  intros R H G P. pose proof (reach_inv _ _ R) as [Hc Hn Hf Hm Hcl Hfl Hsp Hspd].
+  unf H. rewrite Hc in H. destruct l.
   - brk H. injection H as <-. same G.
-  - brk H. injection H as <-. same G.
+  - brk H; injection H as <-; same G.
   - destruct (sp s) eqn:Esp; try discriminate.
     destruct (lis_open s && Nat.eqb c0 (length (conns s))) eqn:Heqb; try discriminate. injection H as <-.
     exists xr. split; [|assumption]. destruct (on_accept k); cbn; apply get_app_old; assumption.
@@ -363,10 +406,19 @@ Proof.
   - destruct (sp s) eqn:Esp; try discriminate. destruct (get s c0) as [x0|] eqn:Hg; try discriminate.
     destruct (Nat.eqb c0 c1) eqn:E; try discriminate. injection H as <-. cbn. t_keep G Hg.
   - brk H. injection H as <-. same G.
+  - brk H. injection H as <-. same G.
   - destruct (sp s) eqn:Esp; try discriminate. destruct (get s c0) as [x0|] eqn:Hg; try discriminate.
     destruct (Nat.eqb c0 c1 && negb (mu s)) eqn:E; try discriminate. apply andb_prop in E as [E E2].
-    apply Nat.eqb_eq in E. subst c1. injection H as <-.
+    apply Nat.eqb_eq in E. subst c1.
+    destruct (Hsp c0 eq_refl) as [x1 [Hg1 Hp1]]. rewrite Hg in Hg1. injection Hg1 as <-.
+    destruct (shut s && negb false); injection H as <-; [same G|cbn; t_keep G Hg].
+  - destruct (sp s) eqn:Esp; try discriminate. destruct (get s c0) as [x0|] eqn:Hg; try discriminate.
+    destruct (Nat.eqb c0 c1) eqn:E; try discriminate. apply Nat.eqb_eq in E. subst c1. injection H as <-.
     destruct (Hsp c0 eq_refl) as [x1 [Hg1 Hp1]]. rewrite Hg in Hg1. injection Hg1 as <-. cbn. t_keep G Hg.
+  - destruct (sp s) eqn:Esp; try discriminate. destruct (get s c0) as [x0|] eqn:Hg; try discriminate.
+    destruct (Nat.eqb c0 c1) eqn:E; try discriminate. apply Nat.eqb_eq in E. subst c1. injection H as <-.
+    destruct (Hspd c0 ret eq_refl) as [x1 [Hg1 Hp1]]. rewrite Hg in Hg1. injection Hg1 as <-.
+    destruct (on_close k); destruct ret; cbn; t_keep G Hg.
   - brk H; injection H as <-; same G.
   - cs H. brk Hy; injection Hy as <-; t_keep G Hg.
   - cs H. brk Hy; injection Hy as <-; t_keep G Hg.
@@ -383,7 +435,7 @@ Proof.
     destruct (conn_step s c0 PExited _) as [s1|] eqn:E1; try discriminate. injection H as <-.
     cs E1. injection Hy as <-. cbn. t_keep G Hg.
   - destruct (conn_step s c0 PUntracked _) as [s1|] eqn:E1; try discriminate.
-    cs E1. injection Hy as <-. unfold close_guard in *.
+    cs E1. injection Hy as <-. unfold close_guard in *. cbn [v_guard_old] in *.
     destruct (on_close k) eqn:Eoc; cbn in H; injection H as <-; t_keep G Hg.
   - brk H; injection H as <-; same G.
   - brk H; injection H as <-; same G.
@@ -409,15 +461,38 @@ Definition sd_good (s : state) : bool :=
 Definition sd_ran (s : state) : bool :=
   match sd s with SdIdle => false | SdReturned EPanic => false | _ => true end.
 Definition sp_needs_cb (p : spc) : bool := match p with SAccepted _ | SRejected _ => true | _ => false end.
+Definition lis_is_set (p : spc) : bool := match p with SStart | SCalled => false | _ => true end.
+(* serve is in (or past) its accept loop *)
+Definition in_loop (p : spc) : bool := match p with SStart | SCalled | SLeaving _ => false | _ => true end.
 
-Record finv (k : cfg) (s : state) : Prop := {
+Record finv (v : variant) (k : cfg) (s : state) : Prop := {
   f_ret : returned (sp s) = true -> lis_open s = false;
   f_shut : sd s <> SdIdle -> shut s = true;
   f_good : sd_good s = true -> forall e, sp s = SReturned e -> e = EClosed;
-  f_ran : sd_ran s = true -> lis_open s = false;
+  f_set : lis_set s = lis_is_set (sp s);
+  f_ran : v_nil_old v = false -> sd_ran s = true -> in_loop (sp s) = true -> lis_open s = false;
   f_lis : lis_open s = false -> shut s = true \/ cancelled s = true \/ returned (sp s) = true;
-  f_cb : sp_needs_cb (sp s) = true -> on_accept k = true
+  f_cb : sp_needs_cb (sp s) = true -> on_accept k = true;
+  f_nopanic : v_nil_old v = false -> sd s <> SdReturned EPanic
 }.
+
+(* steps that leave serve's and Shutdown's control state alone (or move Shutdown inside its loop) *)
+Lemma finv_ext v k s s' :
+  sp s' = sp s -> (sd s' = sd s \/ (sd_busy (sd s) = true /\ sd_busy (sd s') = true)) -> sd_err s' = sd_err s ->
+  lis_set s' = lis_set s -> lis_open s' = lis_open s -> shut s' = shut s -> cancelled s' = cancelled s ->
+  finv v k s -> finv v k s'.
+Proof.
+  intros E1 E2 E3 E4 E5 E6 E7 [F1 F2 F3 F4 F5 F6 F7 F8].
+  assert (G : sd_good s' = sd_good s /\ sd_ran s' = sd_ran s /\ (sd s' <> SdIdle -> sd s <> SdIdle) /\
+              (sd s' = SdReturned EPanic -> sd s = SdReturned EPanic)).
+  { unfold sd_good, sd_ran. rewrite E3. destruct E2 as [->|[A B]]; [auto|].
+    destruct (sd s); try discriminate; destruct (sd s'); try discriminate; repeat split; auto; intros; discriminate. }
+  destruct G as [G1 [G2 [G3 G4]]].
+  constructor; rewrite ?E1, ?E4, ?E5, ?E6, ?E7, ?G1, ?G2; auto.
+  intros Hv Hp. apply (F8 Hv). auto.
+Qed.
+
+Ltac fext := match goal with Hf : finv ?v ?k ?s |- finv ?v ?k _ => apply (finv_ext v k s); [reflexivity|(left; reflexivity)|reflexivity|reflexivity|reflexivity|reflexivity|reflexivity|exact Hf] end.
 
 Ltac ffin := constructor; unfold sd_good, sd_ran in *; cbn in *; intros;
   repeat match goal with Hs : sp _ = SReturned _ |- _ => rewrite Hs in *; clear Hs end; cbn in *;
@@ -428,14 +503,22 @@ Ltac ffin := constructor; unfold sd_good, sd_ran in *; cbn in *; intros;
          end;
   try congruence; try discriminate; auto;
   try (match goal with s : state |- _ => destruct (lis_open s); cbn in *; congruence end);
-  try (intuition (try congruence; try discriminate; auto); fail).
+  try (intuition (try congruence; try discriminate; auto); fail);
+  try (match goal with s : state |- _ =>
+         destruct (sd s) as [| | | | |[]] eqn:?; cbn in *; try congruence; try discriminate;
+         intuition (try congruence; try discriminate; auto) end; fail);
+  try (match goal with s : state |- _ =>
+         destruct (sp s) eqn:?; cbn in *; try congruence; try discriminate;
+         intuition (try congruence; try discriminate; auto) end; fail).
 
-Lemma finv_step v k s l s' : finv k s -> step v k s l = Some s' -> finv k s'.
+Lemma finv_step v k s l s' : finv v k s -> step v k s l = Some s' -> finv v k s'.
 Proof.
-  intros [F1 F2 F3 F4 F5 F6] H. unfold sd_good, sd_ran in *. unfold step in H. destruct (crashed s) eqn:Hc; [discriminate|].
+  intros Hf H. pose proof Hf as [F1 F2 F3 F4 F5 F6 F7 F8].
+  unfold sd_good, sd_ran in *. unfold step in H. destruct (crashed s) eqn:Hc; [discriminate|].
   destruct l.
   - brk H; injection H as <-; ffin.
-  - brk H; injection H as <-; ffin.
+  - (* LPublish *) destruct (sp s) eqn:Esp; try discriminate. destruct (mu s); try discriminate. injection H as <-.
+    destruct (shut s) eqn:Es; destruct (v_nil_old v) eqn:Ev; cbn; ffin.
   - destruct (sp s) eqn:Esp; try discriminate.
     destruct (lis_open s && Nat.eqb c (length (conns s))) eqn:Heqb; try discriminate. injection H as <-.
     apply andb_prop in Heqb as [Hlo _]. destruct (on_accept k) eqn:Eoa; ffin.
@@ -445,46 +528,58 @@ Proof.
   - destruct (sp s) eqn:Esp; try discriminate. destruct (get s c) as [x|] eqn:Hg; try discriminate.
     destruct (Nat.eqb c c0) eqn:E; try discriminate. injection H as <-. ffin.
   - brk H. injection H as <-. ffin.
+  - brk H. injection H as <-. ffin.
+  - (* LTrack *) destruct (sp s) eqn:Esp; try discriminate. destruct (get s c) as [x|] eqn:Hg; try discriminate.
+    destruct (Nat.eqb c c0 && negb (mu s)) eqn:E; try discriminate.
+    destruct (shut s && negb (v_track_old v)); injection H as <-; ffin.
   - destruct (sp s) eqn:Esp; try discriminate. destruct (get s c) as [x|] eqn:Hg; try discriminate.
-    destruct (Nat.eqb c c0 && negb (mu s)) eqn:E; try discriminate. injection H as <-. ffin.
-  - destruct (sp s) eqn:Esp; try discriminate.
+    destruct (Nat.eqb c c0) eqn:E; try discriminate. injection H as <-. ffin.
+  - destruct (sp s) eqn:Esp; try discriminate. destruct (get s c) as [x|] eqn:Hg; try discriminate.
+    destruct (Nat.eqb c c0) eqn:E; try discriminate. injection H as <-. destruct ret; ffin.
+  - (* LServeReturn *) destruct (sp s) eqn:Esp; try discriminate.
     + destruct (shut s || cancelled s) eqn:Esc.
       * destruct (err_is_closed e && negb (lis_open s)) eqn:E; try discriminate. injection H as <-.
         apply andb_prop in E as [E1 E2]. destruct e; try discriminate. ffin.
       * destruct (err_is_other e); try discriminate. injection H as <-. apply orb_false_elim in Esc as [Es Ec].
         constructor; unfold sd_good, sd_ran in *; cbn in *; intros; auto.
         destruct (sd s) eqn:Esd; try discriminate; (assert (shut s = true) by (apply F2; discriminate); congruence).
-    + destruct (cancelled s && err_is_closed e) eqn:E; try discriminate. apply andb_prop in E as [E1 E2].
+    + destruct (v_drop_old v && cancelled s && err_is_closed e) eqn:E; try discriminate. apply andb_prop in E as [E1 E2].
       destruct e; try discriminate. injection H as <-. ffin.
-  - cs H. brk Hy; injection Hy as <-; ffin.
-  - cs H. brk Hy; injection Hy as <-; ffin.
-  - cs H. brk Hy; injection Hy as <-; ffin.
-  - cs H. brk Hy; injection Hy as <-; ffin.
-  - cs H. brk Hy; injection Hy as <-; ffin.
-  - cs H. brk Hy; injection Hy as <-; ffin.
-  - cs H. brk Hy; injection Hy as <-; ffin.
-  - destruct (get s c) as [x|] eqn:Hg; try discriminate. brk H; injection H as <-; ffin.
-  - destruct (get s c) as [x|] eqn:Hg; try discriminate. brk H; injection H as <-; ffin.
-  - cs H. brk Hy; injection Hy as <-; ffin.
-  - cs H. brk Hy; injection Hy as <-; ffin.
+    + destruct e; try discriminate; injection H as <-; ffin.
+  - cs H. brk Hy; injection Hy as <-; fext.
+  - cs H. brk Hy; injection Hy as <-; fext.
+  - cs H. brk Hy; injection Hy as <-; fext.
+  - cs H. brk Hy; injection Hy as <-; fext.
+  - cs H. brk Hy; injection Hy as <-; fext.
+  - cs H. brk Hy; injection Hy as <-; fext.
+  - cs H. brk Hy; injection Hy as <-; fext.
+  - destruct (get s c) as [x|] eqn:Hg; try discriminate. brk H; injection H as <-; fext.
+  - destruct (get s c) as [x|] eqn:Hg; try discriminate. brk H; injection H as <-; fext.
+  - cs H. brk Hy; injection Hy as <-; fext.
+  - cs H. brk Hy; injection Hy as <-; fext.
   - destruct (mu s) eqn:Emu; try discriminate.
     destruct (conn_step s c PExited _) as [s1|] eqn:E1; try discriminate. injection H as <-.
-    cs E1. injection Hy as <-. ffin.
+    cs E1. injection Hy as <-. fext.
   - destruct (conn_step s c PUntracked _) as [s1|] eqn:E1; try discriminate.
     cs E1. injection Hy as <-.
-    destruct (close_guard v k && negb (on_close k)); injection H as <-; ffin.
-  - brk H; injection H as <-; ffin.
-  - brk H; injection H as <-; ffin.
+    destruct (close_guard v k && negb (on_close k)); injection H as <-; fext.
+  - brk H; injection H as <-; fext.
+  - (* LSdBegin *) brk H; injection H as <-; ffin.
   - destruct (sd s) eqn:Esd; try discriminate. destruct (get s c) as [x|] eqn:Hg; try discriminate.
     destruct (mem_nat c todo && inmap x) eqn:E; try discriminate.
-    destruct (cst x) eqn:Ecst; injection H as <-; ffin.
+    destruct (cst x) eqn:Ecst; injection H as <-;
+      (apply (finv_ext v k s); [reflexivity|right; rewrite Esd; split; reflexivity|reflexivity|reflexivity|reflexivity|reflexivity|reflexivity|exact Hf]).
   - destruct (sd s) eqn:Esd; try discriminate. destruct (get s c) as [x|] eqn:Hg; try discriminate.
     destruct (Nat.eqb c c0) eqn:E; try discriminate.
-    destruct (cst x) eqn:Ecst; injection H as <-; ffin.
+    destruct (cst x) eqn:Ecst; try destruct (v_load_old v); injection H as <-;
+      (apply (finv_ext v k s); [reflexivity|right; rewrite Esd; split; reflexivity|reflexivity|reflexivity|reflexivity|reflexivity|reflexivity|exact Hf]).
   - destruct (sd s) eqn:Esd; try discriminate. destruct (get s c) as [x|] eqn:Hg; try discriminate.
-    destruct (Nat.eqb c c0) eqn:E; try discriminate. injection H as <-; ffin.
-  - brk H; injection H as <-; ffin.
-  - brk H; injection H as <-; ffin.
+    destruct (Nat.eqb c c0) eqn:E; try discriminate. injection H as <-;
+      (apply (finv_ext v k s); [reflexivity|right; rewrite Esd; split; reflexivity|reflexivity|reflexivity|reflexivity|reflexivity|reflexivity|exact Hf]).
+  - brk H; injection H as <-;
+      (apply (finv_ext v k s); [reflexivity|right; rewrite Heqs0; split; reflexivity|reflexivity|reflexivity|reflexivity|reflexivity|reflexivity|exact Hf]).
+  - brk H; injection H as <-;
+      (apply (finv_ext v k s); [reflexivity|right; rewrite Heqs0; split; reflexivity|reflexivity|reflexivity|reflexivity|reflexivity|reflexivity|exact Hf]).
   - brk H; injection H as <-; ffin.
   - brk H; injection H as <-; ffin.
   - brk H; injection H as <-; ffin.
@@ -501,6 +596,7 @@ Definition cinv3 (s : state) : Prop :=
   | SdPass t true => cover s t None
   | SdFailed c t true => cover s t (Some c)
   | SdClosing c t true => cover s t (Some c)
+  | SdReturned ENil => cover s [] None
   | _ => True
   end.
 
@@ -522,6 +618,7 @@ Ltac t_cov Hcov Hm Hg :=
   match goal with |- context [sd ?s] => destruct (sd s) eqn:Esd0 end; auto;
   try (exfalso; cbn in Hm; congruence);
   try match goal with |- match ?b with true => _ | false => _ end => destruct b end; auto;
+  try match goal with |- match ?e with ENil => _ | _ => _ end => destruct e end; auto;
   intros d x' G I;
   match type of Hg with get ?s ?c = Some ?x =>
     destruct (Nat.eq_dec c d) as [->|Hne];
@@ -533,9 +630,9 @@ Ltac t_cov Hcov Hm Hg :=
   end.
 Ltac t_same Hcov := unfold cinv3, cover, get in *; cbn; exact Hcov.
 
-Lemma cov_step k s l s' : inv k s -> cinv3 s -> step GuardNow k s l = Some s' -> cinv3 s'.
+Lemma cov_step k s l s' : inv k s -> finv GuardNow k s -> cinv3 s -> step GuardNow k s l = Some s' -> cinv3 s'.
 Proof.
-  intros [Hc Hn Hf Hm Hcl Hfl Hsp] Hcov H. unfold step in H. rewrite Hc in H.
+  intros [Hc Hn Hf Hm Hcl Hfl Hsp Hspd] [F1 F2 F3 F4 F5 F6 F7 F8] Hcov H. unf H. rewrite Hc in H.
   destruct l.
   - brk H; injection H as <-; t_same Hcov.
   - brk H; injection H as <-; t_same Hcov.
@@ -544,16 +641,29 @@ Proof.
     assert (A : forall t oc, cover s t oc -> cover (s_conns (conns s ++ [new_conn]) s) t oc).
     { intros t oc C d x G I. apply get_app_new in G as [G|[_ ->]]; [eapply C; eassumption|discriminate]. }
     unfold cinv3 in *. destruct (on_accept k); cbn;
-      (destruct (sd s) as [|t0 a0|c1 t0 a0|c1 t0 a0| |e0]; auto; destruct a0; auto; apply A; assumption).
+      (destruct (sd s) as [|t0 a0|c1 t0 a0|c1 t0 a0| |e0]; auto; try (destruct a0; auto; apply A; assumption);
+       destruct e0; auto; apply A; assumption).
   - destruct (sp s) eqn:Esp; try discriminate. destruct (get s c) as [x|] eqn:Hg; try discriminate.
     destruct (Nat.eqb c c0 && on_accept k && (n =? count s + 1)%Z) eqn:E; try discriminate.
     injection H as <-. destruct ok; t_cov Hcov Hm Hg.
   - destruct (sp s) eqn:Esp; try discriminate. destruct (get s c) as [x|] eqn:Hg; try discriminate.
     destruct (Nat.eqb c c0) eqn:E; try discriminate. injection H as <-. t_cov Hcov Hm Hg.
   - brk H. injection H as <-. t_same Hcov.
+  - brk H. injection H as <-. t_same Hcov.
   - destruct (sp s) eqn:Esp; try discriminate. destruct (get s c) as [x|] eqn:Hg; try discriminate.
     destruct (Nat.eqb c c0 && negb (mu s)) eqn:E; try discriminate. apply andb_prop in E as [E E2].
-    destruct (mu s) eqn:Emu; try discriminate. injection H as <-. t_cov Hcov Hm Hg.
+    destruct (mu s) eqn:Emu; try discriminate.
+    destruct (shut s && negb false) eqn:Esh; injection H as <-; [t_same Hcov|].
+    (* the connection is only added while the server is not shut down: no Shutdown has begun *)
+    assert (Esd : sd s = SdIdle).
+    { destruct (sd s) eqn:X; auto; exfalso; (assert (Hs : shut s = true) by (apply F2; discriminate));
+      rewrite Hs in Esh; discriminate. }
+    unfold cinv3. cbn. rewrite Esd. exact I.
+  - destruct (sp s) eqn:Esp; try discriminate. destruct (get s c) as [x|] eqn:Hg; try discriminate.
+    destruct (Nat.eqb c c0) eqn:E; try discriminate. injection H as <-. t_cov Hcov Hm Hg.
+  - destruct (sp s) eqn:Esp; try discriminate. destruct (get s c) as [x|] eqn:Hg; try discriminate.
+    destruct (Nat.eqb c c0) eqn:E; try discriminate. injection H as <-.
+    destruct (on_close k); destruct ret; t_cov Hcov Hm Hg.
   - brk H; injection H as <-; t_same Hcov.
   - cs H. brk Hy; injection Hy as <-; t_cov Hcov Hm Hg.
   - cs H. brk Hy; injection Hy as <-; t_cov Hcov Hm Hg.
@@ -570,7 +680,7 @@ Proof.
     destruct (conn_step s c PExited _) as [s1|] eqn:E1; try discriminate. injection H as <-.
     cs E1. injection Hy as <-. t_cov Hcov Hm Hg.
   - destruct (conn_step s c PUntracked _) as [s1|] eqn:E1; try discriminate.
-    cs E1. injection Hy as <-. unfold close_guard in *.
+    cs E1. injection Hy as <-. unfold close_guard in *. cbn [v_guard_old] in *.
     destruct (on_close k) eqn:Eoc; cbn in H; injection H as <-; t_cov Hcov Hm Hg.
   - brk H; injection H as <-; t_same Hcov.
   - (* LSdBegin *) destruct (sd s) eqn:Esd; try discriminate;
@@ -593,10 +703,8 @@ Proof.
     destruct (Nat.eqb c c0) eqn:E; try discriminate. apply Nat.eqb_eq in E. subst c0.
     unfold cinv3 in *. rewrite Esd in Hcov.
     destruct (cst x) eqn:Ecst; injection H as <-; cbn; auto; destruct allidle; auto; intros d x' G I.
-    + unfold get, put in G; cbn in G. destruct (Nat.eq_dec c d) as [->|Hne]; [right; reflexivity|].
-      rewrite nth_upd_other in G by assumption. exact (Hcov d x' G I).
-    + unfold get, put, via_set in G. destruct (Nat.eq_dec c d) as [->|Hne]; [right; reflexivity|].
-      destruct (sd_via x); cbn in G; try rewrite nth_upd_other in G by assumption; exact (Hcov d x' G I).
+    unfold get, put, via_set in G. destruct (Nat.eq_dec c d) as [->|Hne]; [right; reflexivity|].
+    destruct (sd_via x); cbn in G; try rewrite nth_upd_other in G by assumption; exact (Hcov d x' G I).
   - (* LSdClose *)
     destruct (sd s) eqn:Esd; try discriminate. destruct (get s c) as [x|] eqn:Hg; try discriminate.
     destruct (Nat.eqb c c0) eqn:E; try discriminate. apply Nat.eqb_eq in E. subst c0. injection H as <-.
@@ -607,98 +715,27 @@ Proof.
   - brk H; injection H as <-; unfold cinv3; cbn; exact I.
   - brk H; injection H as <-; unfold cinv3; cbn; intros d x G I; left; apply (inmap_ids_complete _ 0 d x G I).
   - brk H; injection H as <-; unfold cinv3; cbn; exact I.
-  - brk H; injection H as <-; unfold cinv3; cbn; exact I.
+  - destruct (sd s) as [|t0 a0| | | |] eqn:Esd; try discriminate. destruct t0; try discriminate. destruct a0; try discriminate.
+    injection H as <-. unfold cinv3 in *. rewrite Esd in Hcov. cbn. destruct (sd_err s); [exact I|exact Hcov].
   - brk H; injection H as <-; t_same Hcov.
   - brk H; injection H as <-; t_same Hcov.
 Qed.
 
-Lemma finv_init k : finv k init.
+Lemma finv_init v k : finv v k init.
 Proof. constructor; cbn; intros; try discriminate; try congruence; auto. Qed.
-Theorem reach_finv v k s : reach v k s -> finv k s.
+Theorem reach_finv v k s : reach v k s -> finv v k s.
 Proof. induction 1 as [|s l s' _ IH H]; [apply finv_init|eapply finv_step; eassumption]. Qed.
 Theorem reach_cinv3 k s : reach GuardNow k s -> cinv3 s.
 Proof.
-  induction 1 as [|s l s' R IH H]; [exact I|]. eapply cov_step; [apply reach_inv; exact R|exact IH|exact H].
+  induction 1 as [|s l s' R IH H]; [exact I|]. eapply cov_step; [apply reach_inv; exact R|apply reach_finv; exact R|exact IH|exact H].
 Qed.
 
-(* ---------- (e) graceful shutdown ---------- *)
-(* at the moment Shutdown returns nil *)
-Theorem shutdown_return_nil k s s' : reach GuardNow k s -> step GuardNow k s LSdReturn = Some s' ->
-  sd s' = SdReturned ENil ->
-  lis_open s' = false /\ shut s' = true /\ mu s' = false /\
-  (forall e, sp s' = SReturned e -> e = EClosed) /\
-  (forall c x, get s' c = Some x -> inmap x = false /\ (is_live (ph x) = true -> sock x = false)).
-Proof.
-  intros R H E.
-  assert (R' : reach GuardNow k s') by (eapply reach_step; eassumption).
-  pose proof (reach_finv _ _ _ R') as [F1 F2 F3 F4 F5 F6].
-  pose proof (reach_cinv3 _ _ R) as C3. pose proof (reach_inv _ _ R') as I'.
-  unfold sd_good, sd_ran in *. rewrite E in *.
-  split; [apply F4; reflexivity|]. split; [apply F2; discriminate|].
-  split; [rewrite (i_mu _ _ I'), E; reflexivity|]. split; [apply F3; reflexivity|].
-  assert (Hno : forall c x, get s' c = Some x -> inmap x = false).
-  { unfold step in H. destruct (crashed s); [discriminate|]. destruct (sd s) as [|t a|? ? ?|? ? ?| |?] eqn:Esd; try discriminate.
-    destruct t; try discriminate. destruct a; try discriminate. injection H as <-.
-    unfold cinv3 in C3. rewrite Esd in C3. intros c x G. destruct (inmap x) eqn:Ei; [|reflexivity].
-    destruct (C3 c x G Ei) as [[]|Hx]; discriminate. }
-  intros c x G. split; [eapply Hno; eassumption|]. intros L.
-  apply (ci_del _ _ (reach_get_cinv _ _ _ _ R' G) L). eapply Hno; eassumption.
-Qed.
-
-(* after it: the listener stays closed, so Accept fails and the only way out of serve's loop is
-   ErrServerClosed; a ServeReturn step can carry no other error *)
-Lemma serve_return_closed v k s e s' : shut s = true \/ cancelled s = true ->
-  step v k s (LServeReturn e) = Some s' -> e = EClosed.
-Proof.
-  intros Hsc H. unfold step in H. destruct (crashed s); [discriminate|].
-  destruct (sp s); try discriminate.
-  - assert (E : shut s || cancelled s = true) by (destruct Hsc as [-> | ->]; [reflexivity|apply orb_true_r]).
-    rewrite E in H. destruct e; cbn in H; try discriminate. reflexivity.
-  - destruct e; try rewrite andb_false_r in H; try discriminate. reflexivity.
-Qed.
-Lemma accept_needs_open_listener v k s c s' : step v k s (LAccept c) = Some s' -> lis_open s = true.
-Proof.
-  unfold step. destruct (crashed s); [discriminate|]. destruct (sp s); try discriminate.
-  destruct (lis_open s); [reflexivity|discriminate].
-Qed.
-Theorem after_good_shutdown v k s : reach v k s ->
-  (match sd s with SdReturned ENil => True | _ => False end) ->
-  lis_open s = false /\ shut s = true /\ (forall e, sp s = SReturned e -> e = EClosed) /\
-  (forall c s', step v k s (LAccept c) = Some s' -> False) /\
-  (forall e s', step v k s (LServeReturn e) = Some s' -> e = EClosed).
-Proof.
-  intros R E. pose proof (reach_finv _ _ _ R) as [F1 F2 F3 F4 F5 F6]. unfold sd_good, sd_ran in *.
-  destruct (sd s) as [| | | | |[]] eqn:Esd; try contradiction.
-  assert (Hl : lis_open s = false) by (apply F4; reflexivity).
-  assert (Hs : shut s = true) by (apply F2; discriminate).
-  split; [exact Hl|]. split; [exact Hs|]. split; [apply F3; reflexivity|]. split.
-  - intros c s' H. apply accept_needs_open_listener in H. congruence.
-  - intros e s' H. eapply serve_return_closed; [left; exact Hs|exact H].
-Qed.
-
-(* replies: whatever Shutdown closed after a successful CAS (or after finding the goroutine gone) owes
-   nothing and loses nothing; a lost reply can only come from the fall-through after a failed CAS
-   that then loaded `idle` *)
-Theorem shutdown_no_lost_reply k s : reach GuardNow k s ->
-  forall c x, get s c = Some x ->
-    (lost x <> 0 -> sd_via x = ViaLoadIdle) /\
-    (sd_via x = ViaCas -> owed x = [] /\ cst x = CClosed) /\
-    (sd_via x = ViaLoadClosed -> cst x = CClosed) /\
-    (handling_ph (ph x) = true -> sock x = false -> sd_via x = ViaLoadIdle).
-Proof.
-  intros R c x G. pose proof (reach_get_cinv _ _ _ _ R G) as [H1 H2 H3 H4 H5 H6 H7 H8 H9 H10 H11 H12 H13 H14].
-  split; [exact H9|]. split; [|split].
-  - intros E. split; [auto|]. destruct H7 as [A|A]; [congruence|exact A|congruence].
-  - intros E. destruct H7 as [A|A]; [congruence|exact A|congruence].
-  - intros Hh Hs. assert (Hp : pre_exit (ph x) = true) by (destruct (ph x); try discriminate; reflexivity).
-    specialize (H8 Hs Hp). destruct (H7 H8) as [A|A]; [|exact A]. rewrite (H3 Hh) in A. discriminate.
-Qed.
 
 (* ---------- (f) bounded return of serve once the listener is closed ---------- *)
 Definition serve_left (p : spc) : nat :=
   match p with
-  | SStart => 3 | SCalled => 2 | SLoop => 1 | SAccepted _ => 4 | SRejected _ => 2 | SPassed _ => 3 | STrack _ => 2
-  | SReturned _ => 0
+  | SStart => 3 | SCalled => 2 | SLoop => 1 | SAccepted _ => 6 | SRejected _ => 2 | SPassed _ => 5 | STrack _ => 4
+  | SDrop _ _ => 3 | SDropCb _ _ => 2 | SLeaving _ => 1 | SReturned _ => 0
   end.
 Definition is_serve (l : label) : bool := match label_gor l with GServe => true | _ => false end.
 Fixpoint count_serve (ls : list label) : nat :=
@@ -710,51 +747,57 @@ Lemma serve_step_measure v k s l s' : lis_open s = false -> step v k s l = Some 
 Proof.
   intros Hl H. unfold step in H. destruct (crashed s); [discriminate|].
   destruct l; unfold is_serve; cbn [label_gor].
-  - brk H; injection H as <-; cbn; rewrite ?Heqs0; cbn; auto.
-  - brk H; injection H as <-; cbn; rewrite ?Heqs0; cbn; auto.
+  - brk H; injection H as <-; cbn; rewrite ?Heqs0; cbn; first [split; [first [assumption|reflexivity]|lia] | auto].
+  - brk H; injection H as <-; cbn; rewrite ?Heqs0; cbn; first [split; [first [assumption|reflexivity]|lia] | auto].
   - rewrite Hl in H. destruct (sp s); discriminate.
   - destruct (sp s) eqn:Esp; try discriminate. destruct (get s c) as [x|] eqn:Hg; try discriminate.
     destruct (Nat.eqb c c0 && on_accept k && (n =? count s + 1)%Z) eqn:E; try discriminate.
-    injection H as <-. destruct ok; cbn; auto.
+    injection H as <-. destruct ok; cbn; first [split; [first [assumption|reflexivity]|lia] | auto].
   - destruct (sp s) eqn:Esp; try discriminate. destruct (get s c) as [x|] eqn:Hg; try discriminate.
-    destruct (Nat.eqb c c0) eqn:E; try discriminate. injection H as <-. cbn; auto.
-  - brk H. injection H as <-. cbn; rewrite ?Heqs0; cbn; auto.
+    destruct (Nat.eqb c c0) eqn:E; try discriminate. injection H as <-. cbn; first [split; [first [assumption|reflexivity]|lia] | auto].
+  - brk H. injection H as <-. cbn; rewrite ?Heqs0; cbn; first [split; [first [assumption|reflexivity]|lia] | auto].
+  - brk H. injection H as <-. cbn; rewrite ?Heqs0; cbn; first [split; [first [assumption|reflexivity]|lia] | auto].
   - destruct (sp s) eqn:Esp; try discriminate. destruct (get s c) as [x|] eqn:Hg; try discriminate.
-    destruct (Nat.eqb c c0 && negb (mu s)) eqn:E; try discriminate. injection H as <-. cbn; auto.
-  - brk H; injection H as <-; cbn; rewrite ?Heqs0; cbn; auto.
-  - cs H. brk Hy; injection Hy as <-; cbn; auto.
-  - cs H. brk Hy; injection Hy as <-; cbn; auto.
-  - cs H. brk Hy; injection Hy as <-; cbn; auto.
-  - cs H. brk Hy; injection Hy as <-; cbn; auto.
-  - cs H. brk Hy; injection Hy as <-; cbn; auto.
-  - cs H. brk Hy; injection Hy as <-; cbn; auto.
-  - cs H. brk Hy; injection Hy as <-; cbn; auto.
-  - destruct (get s c) as [x|] eqn:Hg; try discriminate. brk H; injection H as <-; cbn; auto.
-  - destruct (get s c) as [x|] eqn:Hg; try discriminate. brk H; injection H as <-; cbn; auto.
-  - cs H. brk Hy; injection Hy as <-; cbn; auto.
-  - cs H. brk Hy; injection Hy as <-; cbn; auto.
+    destruct (Nat.eqb c c0 && negb (mu s)) eqn:E; try discriminate.
+    destruct (shut s && negb (v_track_old v)); injection H as <-; cbn; first [split; [first [assumption|reflexivity]|lia] | auto].
+  - destruct (sp s) eqn:Esp; try discriminate. destruct (get s c) as [x|] eqn:Hg; try discriminate.
+    destruct (Nat.eqb c c0) eqn:E; try discriminate. injection H as <-. cbn; first [split; [first [assumption|reflexivity]|lia] | auto].
+  - destruct (sp s) eqn:Esp; try discriminate. destruct (get s c) as [x|] eqn:Hg; try discriminate.
+    destruct (Nat.eqb c c0) eqn:E; try discriminate. injection H as <-. destruct ret; cbn; first [split; [first [assumption|reflexivity]|lia] | auto].
+  - brk H; injection H as <-; cbn; rewrite ?Heqs0; cbn; first [split; [first [assumption|reflexivity]|lia] | auto].
+  - cs H. brk Hy; injection Hy as <-; cbn; first [split; [first [assumption|reflexivity]|lia] | auto].
+  - cs H. brk Hy; injection Hy as <-; cbn; first [split; [first [assumption|reflexivity]|lia] | auto].
+  - cs H. brk Hy; injection Hy as <-; cbn; first [split; [first [assumption|reflexivity]|lia] | auto].
+  - cs H. brk Hy; injection Hy as <-; cbn; first [split; [first [assumption|reflexivity]|lia] | auto].
+  - cs H. brk Hy; injection Hy as <-; cbn; first [split; [first [assumption|reflexivity]|lia] | auto].
+  - cs H. brk Hy; injection Hy as <-; cbn; first [split; [first [assumption|reflexivity]|lia] | auto].
+  - cs H. brk Hy; injection Hy as <-; cbn; first [split; [first [assumption|reflexivity]|lia] | auto].
+  - destruct (get s c) as [x|] eqn:Hg; try discriminate. brk H; injection H as <-; cbn; first [split; [first [assumption|reflexivity]|lia] | auto].
+  - destruct (get s c) as [x|] eqn:Hg; try discriminate. brk H; injection H as <-; cbn; first [split; [first [assumption|reflexivity]|lia] | auto].
+  - cs H. brk Hy; injection Hy as <-; cbn; first [split; [first [assumption|reflexivity]|lia] | auto].
+  - cs H. brk Hy; injection Hy as <-; cbn; first [split; [first [assumption|reflexivity]|lia] | auto].
   - destruct (mu s) eqn:Emu; try discriminate.
     destruct (conn_step s c PExited _) as [s1|] eqn:E1; try discriminate. injection H as <-.
-    cs E1. injection Hy as <-. cbn; auto.
+    cs E1. injection Hy as <-. cbn; first [split; [first [assumption|reflexivity]|lia] | auto].
   - destruct (conn_step s c PUntracked _) as [s1|] eqn:E1; try discriminate.
     cs E1. injection Hy as <-.
-    destruct (close_guard v k && negb (on_close k)); injection H as <-; cbn; auto.
-  - brk H; injection H as <-; cbn; auto.
-  - brk H; injection H as <-; cbn; auto.
+    destruct (close_guard v k && negb (on_close k)); injection H as <-; cbn; first [split; [first [assumption|reflexivity]|lia] | auto].
+  - brk H; injection H as <-; cbn; first [split; [first [assumption|reflexivity]|lia] | auto].
+  - brk H; injection H as <-; cbn; first [split; [first [assumption|reflexivity]|lia] | auto].
   - destruct (sd s) eqn:Esd; try discriminate. destruct (get s c) as [x|] eqn:Hg; try discriminate.
     destruct (mem_nat c todo && inmap x) eqn:E; try discriminate.
-    destruct (cst x) eqn:Ecst; injection H as <-; cbn; auto.
+    destruct (cst x) eqn:Ecst; try destruct (v_load_old v); injection H as <-; cbn; first [split; [first [assumption|reflexivity]|lia] | auto].
   - destruct (sd s) eqn:Esd; try discriminate. destruct (get s c) as [x|] eqn:Hg; try discriminate.
     destruct (Nat.eqb c c0) eqn:E; try discriminate.
-    destruct (cst x) eqn:Ecst; injection H as <-; cbn; auto.
+    destruct (cst x) eqn:Ecst; try destruct (v_load_old v); injection H as <-; cbn; first [split; [first [assumption|reflexivity]|lia] | auto].
   - destruct (sd s) eqn:Esd; try discriminate. destruct (get s c) as [x|] eqn:Hg; try discriminate.
-    destruct (Nat.eqb c c0) eqn:E; try discriminate. injection H as <-; cbn; auto.
-  - brk H; injection H as <-; cbn; auto.
-  - brk H; injection H as <-; cbn; auto.
-  - brk H; injection H as <-; cbn; auto.
-  - brk H; injection H as <-; cbn; auto.
-  - brk H; injection H as <-; cbn; auto.
-  - brk H; injection H as <-; cbn; auto.
+    destruct (Nat.eqb c c0) eqn:E; try discriminate. injection H as <-; cbn; first [split; [first [assumption|reflexivity]|lia] | auto].
+  - brk H; injection H as <-; cbn; first [split; [first [assumption|reflexivity]|lia] | auto].
+  - brk H; injection H as <-; cbn; first [split; [first [assumption|reflexivity]|lia] | auto].
+  - brk H; injection H as <-; cbn; first [split; [first [assumption|reflexivity]|lia] | auto].
+  - brk H; injection H as <-; cbn; first [split; [first [assumption|reflexivity]|lia] | auto].
+  - brk H; injection H as <-; cbn; first [split; [first [assumption|reflexivity]|lia] | auto].
+  - brk H; injection H as <-; cbn; first [split; [first [assumption|reflexivity]|lia] | auto].
 Qed.
 
 Theorem serve_bounded v k : forall ls s s', lis_open s = false -> run v k s ls = Some s' ->
@@ -766,10 +809,10 @@ Proof.
     destruct (serve_step_measure _ _ _ _ _ Hl E) as [Hl1 Hm]. destruct (IH _ _ Hl1 H) as [Hc Hl']. split; [|exact Hl'].
     cbn [count_serve]. destruct (is_serve l); [lia|rewrite Hm in Hc; lia].
 Qed.
-Corollary serve_bounded_4 v k ls s s' : lis_open s = false -> run v k s ls = Some s' -> count_serve ls <= 4.
+Corollary serve_bounded_6 v k ls s s' : lis_open s = false -> run v k s ls = Some s' -> count_serve ls <= 6.
 Proof.
   intros Hl H. destruct (serve_bounded v k ls s s' Hl H) as [Hc _].
-  assert (serve_left (sp s) <= 4) by (destruct (sp s); cbn; lia). lia.
+  assert (serve_left (sp s) <= 6) by (destruct (sp s); cbn; lia). lia.
 Qed.
 
 (* cancelling makes the listener-closing step available, and it stays available until taken *)
@@ -783,25 +826,363 @@ Theorem serve_progress k s : reach GuardNow k s -> lis_open s = false -> shut s 
   returned (sp s) = false -> mu s = false ->
   exists l s', is_serve l = true /\ step GuardNow k s l = Some s'.
 Proof.
-  intros R Hl Hsc Hr Hmu. pose proof (reach_inv _ _ R) as [Hc Hn Hf Hm Hcl Hfl Hsp].
-  pose proof (reach_finv _ _ _ R) as [F1 F2 F3 F4 F5 F6].
+  intros R Hl Hsc Hr Hmu. pose proof (reach_inv _ _ R) as [Hc Hn Hf Hm Hcl Hfl Hsp Hspd].
+  pose proof (reach_finv _ _ _ R) as [F1 F2 F3 F4 F5 F6 F7 F8].
   assert (E : shut s || cancelled s = true) by (destruct Hsc as [-> | ->]; [reflexivity|apply orb_true_r]).
   destruct (sp s) eqn:Esp; try discriminate.
   - exists LServeCb. eexists. split; [reflexivity|]. unfold step. rewrite Hc, Esp. reflexivity.
   - exists LPublish. eexists. split; [reflexivity|]. unfold step. rewrite Hc, Esp, Hmu. reflexivity.
   - exists (LServeReturn EClosed). eexists. split; [reflexivity|]. unfold step. rewrite Hc, Esp, E, Hl. reflexivity.
   - destruct (Hsp c eq_refl) as [x [G P]]. exists (LAcceptCb c (count s + 1) true). eexists. split; [reflexivity|].
-    unfold step. rewrite Hc, Esp, G, Nat.eqb_refl, Z.eqb_refl. rewrite (F6 eq_refl). reflexivity.
+    unfold step. rewrite Hc, Esp, G, Nat.eqb_refl, Z.eqb_refl. rewrite (F7 eq_refl). reflexivity.
   - destruct (Hsp c eq_refl) as [x [G P]]. exists (LRejectClose c). eexists. split; [reflexivity|].
     unfold step. rewrite Hc, Esp, G, Nat.eqb_refl. reflexivity.
   - destruct (cancelled s) eqn:Ec.
-    + exists (LServeReturn EClosed). eexists. split; [reflexivity|]. unfold step. rewrite Hc, Esp, Ec. reflexivity.
+    + exists (LCtxDone c). eexists. split; [reflexivity|]. unfold step. rewrite Hc, Esp, Ec, Nat.eqb_refl. reflexivity.
     + exists (LCtxPass c). eexists. split; [reflexivity|]. unfold step. rewrite Hc, Esp, Ec, Nat.eqb_refl. reflexivity.
-  - destruct (Hsp c eq_refl) as [x [G P]]. exists (LTrack c). eexists. split; [reflexivity|].
-    unfold step. rewrite Hc, Esp, G, Nat.eqb_refl, Hmu. reflexivity.
+  - destruct (Hsp c eq_refl) as [x [G P]]. exists (LTrack c).
+    destruct (shut s) eqn:Es; eexists; (split; [reflexivity|]); unfold step; rewrite Hc, Esp, G, Nat.eqb_refl, Hmu, Es; reflexivity.
+  - destruct (Hsp c eq_refl) as [x [G P]]. exists (LDropClose c). eexists. split; [reflexivity|].
+    unfold step. rewrite Hc, Esp, G, Nat.eqb_refl. reflexivity.
+  - destruct (Hspd c ret eq_refl) as [x [G P]]. exists (LDropCb c). eexists. split; [reflexivity|].
+    unfold step. rewrite Hc, Esp, G, Nat.eqb_refl. reflexivity.
+  - exists (LServeReturn EClosed). eexists. split; [reflexivity|]. unfold step. rewrite Hc, Esp. reflexivity.
 Qed.
 
-(* ---------- witnesses (concrete runs; replayable on the real code, see the harness scripts) ---------- *)
+
+(* ---------- (e) graceful shutdown ---------- *)
+Lemma serve_return_closed v k s e s' : shut s = true \/ cancelled s = true ->
+  step v k s (LServeReturn e) = Some s' -> e = EClosed.
+Proof.
+  intros Hsc H. unfold step in H. destruct (crashed s); [discriminate|].
+  destruct (sp s); try discriminate.
+  - assert (E : shut s || cancelled s = true) by (destruct Hsc as [-> | ->]; [reflexivity|apply orb_true_r]).
+    rewrite E in H. destruct e; cbn in H; try discriminate. reflexivity.
+  - destruct e; try rewrite andb_false_r in H; try discriminate. reflexivity.
+  - destruct e; try discriminate. reflexivity.
+Qed.
+Lemma accept_needs_open_listener v k s c s' : step v k s (LAccept c) = Some s' -> lis_open s = true /\ sp s = SLoop.
+Proof.
+  unfold step. destruct (crashed s); [discriminate|]. destruct (sp s); try discriminate.
+  destruct (lis_open s); [auto|discriminate].
+Qed.
+
+(* once Shutdown has returned nil, and for as long as that is its last result: the flag is set, the
+   mutex free, the listener closed as soon as serve is in its loop (if serve had not started it will
+   not accept at all), Accept never succeeds again, serve can only return ErrServerClosed, the map is
+   empty and EVERY live connection's socket has been closed -- none survives, whenever it was accepted *)
+Theorem good_shutdown k s : reach GuardNow k s -> sd s = SdReturned ENil ->
+  shut s = true /\ mu s = false /\ (in_loop (sp s) = true -> lis_open s = false) /\
+  (forall e, sp s = SReturned e -> e = EClosed) /\
+  (forall c s', step GuardNow k s (LAccept c) = Some s' -> False) /\
+  (forall e s', step GuardNow k s (LServeReturn e) = Some s' -> e = EClosed) /\
+  (forall c x, get s c = Some x -> inmap x = false /\ (is_live (ph x) = true -> sock x = false)).
+Proof.
+  intros R E. pose proof (reach_finv _ _ _ R) as [F1 F2 F3 F4 F5 F6 F7 F8].
+  pose proof (reach_cinv3 _ _ R) as C3. pose proof (reach_inv _ _ R) as I'.
+  unfold sd_good, sd_ran, cinv3 in *. rewrite E in *.
+  assert (Hs : shut s = true) by (apply F2; discriminate).
+  split; [exact Hs|]. split; [rewrite (i_mu _ _ I'), E; reflexivity|].
+  split; [intros L; apply F5; auto|]. split; [apply F3; reflexivity|]. split; [|split].
+  - intros c s' H. apply accept_needs_open_listener in H as [A B]. rewrite B in F5. cbn in F5.
+    rewrite F5 in A by reflexivity. discriminate.
+  - intros e s' H. eapply serve_return_closed; [left; exact Hs|exact H].
+  - intros c x G. assert (Hno : inmap x = false).
+    { destruct (inmap x) eqn:Ei; [|reflexivity]. destruct (C3 c x G Ei) as [[]|Hx]; discriminate. }
+    split; [exact Hno|]. intros L. apply (ci_del _ _ (reach_get_cinv _ _ _ _ R G) L Hno).
+Qed.
+
+(* trackConn refuses a connection once Shutdown has run (it was accepted before and would not be seen
+   by Shutdown any more): serve closes it instead of serving it *)
+Theorem late_track_refused k s c s' : shut s = true -> step GuardNow k s (LTrack c) = Some s' ->
+  sp s' = SDrop c false /\ conns s' = conns s /\ count s' = count s.
+Proof.
+  intros Hs H. unf H. destruct (crashed s); [discriminate|]. destruct (sp s); try discriminate.
+  destruct (get s c); try discriminate. destruct (Nat.eqb c c0 && negb (mu s)); try discriminate.
+  rewrite Hs in H. cbn in H. injection H as <-. auto.
+Qed.
+
+(* FULL statement for the replies.  In every reachable state, for every connection: no reply was ever
+   lost to a close by the server; a socket the server side has closed owes no reply; whatever Shutdown
+   closed -- after a successful CAS or after finding the goroutine gone -- was not inside an exchange,
+   owes nothing, and stays so. *)
+Theorem replies_complete k s c x : reach GuardNow k s -> get s c = Some x ->
+  lost x = 0 /\
+  (sock x = false -> owed x = []) /\
+  (sd_via x <> ViaNone -> cst x = CClosed /\ owed x = [] /\ handling_ph (ph x) = false) /\
+  (cst x = CIdle -> owed x = []) /\ (handling_ph (ph x) = true -> cst x = CHandling) /\ (owed x <> [] -> cst x = CHandling).
+Proof.
+  intros R G. pose proof (reach_get_cinv _ _ _ _ R G) as [H1 H2 H3 H4 H5 H6 H7 H8 H9 H10 H11].
+  assert (Ho : owed x <> [] -> handling_ph (ph x) = true /\ pre_exit (ph x) = true).
+  { intros A. destruct (H4 A) as [->|[-> _]]; split; reflexivity. }
+  assert (Hd : forall l : list nat, l = [] \/ l <> []) by (intros [|]; [left; reflexivity|right; discriminate]).
+  assert (Hc : cst x <> CHandling -> owed x = []).
+  { intros A. destruct (Hd (owed x)) as [B|B]; [exact B|]. destruct (Ho B) as [C _]. elim A. apply H3. exact C. }
+  split; [exact H9|]. split; [|split; [|split; [|split]]].
+  - intros Hs. destruct (Hd (owed x)) as [B|B]; [exact B|]. destruct (Ho B) as [C D].
+    specialize (H7 (H8 Hs D)). rewrite (H3 C) in H7. discriminate.
+  - intros Hv. specialize (H7 Hv). split; [exact H7|]. split; [apply Hc; congruence|].
+    destruct (handling_ph (ph x)) eqn:Eh; [rewrite (H3 eq_refl) in H7; discriminate|reflexivity].
+  - intros A. apply Hc. congruence.
+  - exact H3.
+  - intros A. destruct (Ho A) as [C _]. apply H3. exact C.
+Qed.
+
+(* Shutdown's successful compare-and-swap only ever hits a connection that is outside an exchange *)
+Theorem shutdown_cas_hits_idle_only k s c s' t a : reach GuardNow k s -> step GuardNow k s (LSdCas c) = Some s' ->
+  sd s' = SdClosing c t a -> exists x, get s c = Some x /\ cst x = CIdle /\ owed x = [] /\ handling_ph (ph x) = false.
+Proof.
+  intros R H E. unf H. destruct (crashed s); [discriminate|]. destruct (sd s) eqn:Esd; try discriminate.
+  destruct (get s c) as [x|] eqn:G; try discriminate. destruct (mem_nat c todo && inmap x); try discriminate.
+  destruct (replies_complete _ _ _ _ R G) as [_ [_ [_ [A [B _]]]]].
+  destruct (cst x) eqn:Ec; injection H as <-; cbn in E; try discriminate.
+  exists x. split; [reflexivity|]. split; [exact Ec|]. split; [apply A; reflexivity|].
+  destruct (handling_ph (ph x)) eqn:Eh; [specialize (B eq_refl); discriminate|reflexivity].
+Qed.
+(* ... and the fall-through after a failed swap closes only a connection whose goroutine has left handle() *)
+Theorem shutdown_load_closes_ended_only k s c s' t a : step GuardNow k s (LSdLoad c) = Some s' ->
+  sd s' = SdClosing c t a -> exists x, get s c = Some x /\ cst x = CClosed.
+Proof.
+  intros H E. unf H. destruct (crashed s); [discriminate|]. destruct (sd s) eqn:Esd; try discriminate.
+  destruct (get s c) as [x|] eqn:G; try discriminate. destruct (Nat.eqb c c0); try discriminate.
+  destruct (cst x) eqn:Ec; injection H as <-; cbn in E; try discriminate. exists x. auto.
+Qed.
+
+(* a connection that is let through while the context is cancelled is closed by serve, reported to the
+   close callback iff that is set, and serve returns ErrServerClosed: the four steps are enabled one
+   after the other, whatever the other goroutines do in between being irrelevant to them *)
+Lemma step_ctx_done k s c : crashed s = false -> sp s = SPassed c -> cancelled s = true ->
+  step GuardNow k s (LCtxDone c) = Some (s_sp (SDrop c true) s).
+Proof. intros A B C. unfold step. rewrite A, B, C, Nat.eqb_refl. reflexivity. Qed.
+Lemma step_drop_close k s c r x : crashed s = false -> sp s = SDrop c r -> get s c = Some x ->
+  step GuardNow k s (LDropClose c) = Some (s_sp (SDropCb c r) (put s c (c_ph PDropping (c_sock false x)))).
+Proof. intros A B C. unfold step. rewrite A, B, C, Nat.eqb_refl. reflexivity. Qed.
+Lemma step_drop_cb k s c r x : crashed s = false -> sp s = SDropCb c r -> get s c = Some x ->
+  step GuardNow k s (LDropCb c) =
+  Some (s_sp (if r then SLeaving true else SLoop) (put s c (c_ph PDropped (if on_close k then c_close_cb (S (close_cb x)) x else x)))).
+Proof. intros A B C. unfold step. rewrite A, B, C, Nat.eqb_refl. reflexivity. Qed.
+Lemma step_leave k s r : crashed s = false -> sp s = SLeaving r ->
+  step GuardNow k s (LServeReturn EClosed) = Some (s_sp (SReturned EClosed) (s_lis_open false s)).
+Proof. intros A B. unfold step. rewrite A, B. reflexivity. Qed.
+
+Theorem cancel_drops_accepted k s c : reach GuardNow k s -> sp s = SPassed c -> cancelled s = true ->
+  exists s' x', run GuardNow k s [LCtxDone c; LDropClose c; LDropCb c; LServeReturn EClosed] = Some s' /\
+    sp s' = SReturned EClosed /\ get s' c = Some x' /\ ph x' = PDropped /\ sock x' = false /\
+    close_cb x' = (if on_close k then 1 else 0) /\
+    step GuardNow k s (LCtxPass c) = None.
+Proof.
+  intros R Esp Ec. pose proof (reach_inv _ _ R) as [Hc Hn Hf Hm Hcl Hfl Hsp Hspd].
+  destruct (Hsp c ltac:(rewrite Esp; reflexivity)) as [x [G P]].
+  pose proof (ci_close _ _ (Forall_nthe _ _ _ _ Hf G)) as Hcb. rewrite P in Hcb.
+  set (s1 := s_sp (SDrop c true) s).
+  set (x2 := c_ph PDropping (c_sock false x)). set (s2 := s_sp (SDropCb c true) (put s1 c x2)).
+  set (x3 := c_ph PDropped (if on_close k then c_close_cb (S (close_cb x2)) x2 else x2)).
+  set (s3 := s_sp (SLeaving true) (put s2 c x3)).
+  assert (G1 : get s1 c = Some x) by exact G.
+  assert (G2 : get s2 c = Some x2) by (unfold s2, get, put; cbn; eapply nth_upd_same; exact G).
+  assert (G3 : get s3 c = Some x3) by (unfold s3, get, put; cbn; eapply nth_upd_same; exact G2).
+  exists (s_sp (SReturned EClosed) (s_lis_open false s3)), x3. split.
+  - cbn [run]. rewrite (step_ctx_done k s c Hc Esp Ec). fold s1.
+    rewrite (step_drop_close k s1 c true x Hc eq_refl G1). fold x2. fold s2.
+    rewrite (step_drop_cb k s2 c true x2 Hc eq_refl G2). fold x3. fold s3.
+    rewrite (step_leave k s3 true Hc eq_refl). reflexivity.
+  - split; [reflexivity|]. split; [exact G3|].
+    unfold x3, x2. crec x. cbn in *. subst. destruct (on_close k); cbn; repeat split; try reflexivity;
+      unfold step; rewrite Hc, Esp, Ec, Nat.eqb_refl; reflexivity.
+Qed.
+
+(* the same for a connection that was accepted before Shutdown but reaches trackConn after it *)
+Theorem shutdown_drops_untracked k s c : reach GuardNow k s -> sp s = STrack c -> shut s = true -> mu s = false ->
+  exists s' x', run GuardNow k s [LTrack c; LDropClose c; LDropCb c] = Some s' /\
+    sp s' = SLoop /\ get s' c = Some x' /\ ph x' = PDropped /\ sock x' = false /\ inmap x' = false /\
+    close_cb x' = (if on_close k then 1 else 0) /\ count s' = count s.
+Proof.
+  intros R Esp Es Emu. pose proof (reach_inv _ _ R) as [Hc Hn Hf Hm Hcl Hfl Hsp Hspd].
+  destruct (Hsp c ltac:(rewrite Esp; reflexivity)) as [x [G P]].
+  pose proof (Forall_nthe _ _ _ _ Hf G) as Hx. pose proof (ci_close _ _ Hx) as Hcb. rewrite P in Hcb.
+  assert (Him : inmap x = false) by (destruct (inmap x) eqn:Ei; [pose proof (ci_inmap _ _ Hx Ei) as A; rewrite P in A; discriminate|reflexivity]).
+  set (s1 := s_sp (SDrop c false) s).
+  set (x2 := c_ph PDropping (c_sock false x)). set (s2 := s_sp (SDropCb c false) (put s1 c x2)).
+  set (x3 := c_ph PDropped (if on_close k then c_close_cb (S (close_cb x2)) x2 else x2)).
+  assert (G1 : get s1 c = Some x) by exact G.
+  assert (G2 : get s2 c = Some x2) by (unfold s2, get, put; cbn; eapply nth_upd_same; exact G).
+  exists (s_sp SLoop (put s2 c x3)), x3. split.
+  - cbn [run]. assert (T : step GuardNow k s (LTrack c) = Some s1).
+    { unfold step. rewrite Hc, Esp, G, Nat.eqb_refl, Emu, Es. reflexivity. }
+    rewrite T. rewrite (step_drop_close k s1 c false x Hc eq_refl G1). fold x2. fold s2.
+    rewrite (step_drop_cb k s2 c false x2 Hc eq_refl G2). reflexivity.
+  - split; [reflexivity|]. split; [unfold get, put; cbn; eapply nth_upd_same; exact G2|].
+    unfold x3, x2. crec x. cbn in *. subst. destruct (on_close k); cbn; repeat split; reflexivity.
+Qed.
+
+(* Shutdown before serve has published its listener: nothing to close, no panic; serve then finds the
+   flag set when it publishes the listener and returns ErrServerClosed without accepting *)
+Theorem no_shutdown_panic v k s : v_nil_old v = false -> reach v k s -> sd s <> SdReturned EPanic.
+Proof. intros Hv R. apply (f_nopanic _ _ _ (reach_finv _ _ _ R) Hv). Qed.
+Theorem publish_after_shutdown k s s' : shut s = true -> step GuardNow k s LPublish = Some s' ->
+  sp s' = SLeaving false /\ (forall l s'', is_serve l = true -> step GuardNow k s' l = Some s'' -> l = LServeReturn EClosed).
+Proof.
+  intros Hs H. unf H. destruct (crashed s) eqn:Hc; [discriminate|]. destruct (sp s); try discriminate.
+  destruct (mu s); try discriminate. rewrite Hs in H. cbn in H. injection H as <-. split; [reflexivity|].
+  intros l s'' Hl H. unfold step in H. cbn [crashed s_sp s_lis_set sp] in H. rewrite Hc in H.
+  destruct l; try discriminate; cbn in Hl; try discriminate; cbn in H;
+    try (destruct (get _ _); discriminate).
+  destruct e; try discriminate. reflexivity.
+Qed.
+
+
+(* ---------- orderings the code relies on ---------- *)
+(* a connection that Accept returned and that is neither rejected nor tracked yet is the one serve is
+   working on (or serve has returned and dropped it): trackConn(c,true) precedes the next Accept *)
+Definition pinv (v : variant) (s : state) : Prop :=
+  forall c x, get s c = Some x -> ph x = PAccepted ->
+    sp_conn (sp s) = Some c \/ (v_drop_old v = true /\ returned (sp s) = true).
+
+Ltac t_p HP Hg :=
+  unfold pinv in *; cbn; intros c' x' G' P';
+  match type of Hg with get ?s ?c = Some ?x =>
+    destruct (Nat.eq_dec c c') as [->|Hne];
+    [ unfold get, put in G'; cbn in G'; rewrite (nth_upd_same _ _ _ _ Hg) in G'; injection G' as <-;
+      first [ discriminate P'
+            | apply (HP _ _ Hg); crec x; unfold via_set in *; cbn in *;
+              repeat match goal with H : context [match ?v with ViaNone => _ | _ => _ end] |- _ => destruct v; cbn in * end;
+              congruence ]
+    | unfold get, put in G'; cbn in G'; rewrite nth_upd_other in G' by assumption; exact (HP _ _ G' P') ]
+  end.
+Ltac p_same HP := unfold pinv, get in *; cbn; exact HP.
+
+Lemma pinv_step v k s l s' : pinv v s -> step v k s l = Some s' -> pinv v s'.
+Proof.
+  intros HP H. unfold step in H. destruct (crashed s) eqn:Hc; [discriminate|].
+  destruct l.
+  - destruct (sp s) eqn:Esp; try discriminate. injection H as <-. unfold pinv in *. cbn. intros c x G P.
+    destruct (HP c x G P) as [A|[_ A]]; rewrite Esp in A; discriminate.
+  - destruct (sp s) eqn:Esp; try discriminate. destruct (mu s); try discriminate. injection H as <-.
+    unfold pinv in *. cbn. intros c x G P. destruct (HP c x G P) as [A|[_ A]]; rewrite Esp in A; discriminate.
+  - destruct (sp s) eqn:Esp; try discriminate.
+    destruct (lis_open s && Nat.eqb c (length (conns s))) eqn:Heqb; try discriminate. injection H as <-.
+    apply andb_prop in Heqb as [_ E]. apply Nat.eqb_eq in E. subst c.
+    unfold pinv in *. intros c x G P. left.
+    assert (G2 : get (s_conns (conns s ++ [new_conn]) s) c = Some x) by (destruct (on_accept k); exact G).
+    apply get_app_new in G2 as [G2|[-> _]].
+    + destruct (HP c x G2 P) as [A|[_ A]]; rewrite Esp in A; discriminate.
+    + destruct (on_accept k); reflexivity.
+  - destruct (sp s) eqn:Esp; try discriminate. destruct (get s c) as [x|] eqn:Hg; try discriminate.
+    destruct (Nat.eqb c c0 && on_accept k && (n =? count s + 1)%Z) eqn:E; try discriminate.
+    injection H as <-. apply andb_prop in E as [E _]. apply andb_prop in E as [E _]. apply Nat.eqb_eq in E. subst c0.
+    unfold pinv in *. intros c' x' G' P'. left.
+    assert (G2 : get (put s c (c_acc (Some n) (live_count (conns s)) x)) c' = Some x') by (destruct ok; exact G').
+    destruct (Nat.eq_dec c c') as [->|Hne]; [destruct ok; reflexivity|].
+    rewrite get_put_other in G2 by assumption. destruct (HP c' x' G2 P') as [A|[_ A]]; rewrite Esp in A; cbn in A; [|discriminate].
+    injection A as <-. congruence.
+  - destruct (sp s) eqn:Esp; try discriminate. destruct (get s c) as [x|] eqn:Hg; try discriminate.
+    destruct (Nat.eqb c c0) eqn:E; try discriminate. apply Nat.eqb_eq in E. subst c0. injection H as <-.
+    unfold pinv in *. cbn. intros c' x' G' P'. exfalso.
+    destruct (Nat.eq_dec c c') as [->|Hne].
+    + unfold get, put in G'; cbn in G'. rewrite (nth_upd_same _ _ _ _ Hg) in G'. injection G' as <-. discriminate P'.
+    + unfold get, put in G'; cbn in G'. rewrite nth_upd_other in G' by assumption.
+      destruct (HP c' x' G' P') as [A|[_ A]]; rewrite Esp in A; cbn in A; [|discriminate]. injection A as <-. congruence.
+  - (* LCtxPass *) destruct (sp s) eqn:Esp; try discriminate. destruct (Nat.eqb c c0 && negb (cancelled s)) eqn:E; try discriminate.
+    injection H as <-. apply andb_prop in E as [E _]. apply Nat.eqb_eq in E. subst c0.
+    unfold pinv in *. cbn. intros c' x' G' P'. destruct (HP c' x' G' P') as [A|[_ A]]; rewrite Esp in A; cbn in A; [left; exact A|discriminate].
+  - (* LCtxDone *) destruct (sp s) eqn:Esp; try discriminate. destruct (Nat.eqb c c0 && cancelled s && negb (v_drop_old v)) eqn:E; try discriminate.
+    injection H as <-. apply andb_prop in E as [E _]. apply andb_prop in E as [E _]. apply Nat.eqb_eq in E. subst c0.
+    unfold pinv in *. cbn. intros c' x' G' P'. destruct (HP c' x' G' P') as [A|[_ A]]; rewrite Esp in A; cbn in A; [left; exact A|discriminate].
+  - (* LTrack *) destruct (sp s) eqn:Esp; try discriminate. destruct (get s c) as [x|] eqn:Hg; try discriminate.
+    destruct (Nat.eqb c c0 && negb (mu s)) eqn:E; try discriminate. apply andb_prop in E as [E _].
+    apply Nat.eqb_eq in E. subst c0.
+    destruct (shut s && negb (v_track_old v)); injection H as <-.
+    + unfold pinv in *. cbn. intros c' x' G' P'. destruct (HP c' x' G' P') as [A|[_ A]]; rewrite Esp in A; cbn in A; [left; exact A|discriminate].
+    + unfold pinv in *. cbn. intros c' x' G' P'. exfalso.
+      destruct (Nat.eq_dec c c') as [->|Hne].
+      * unfold get, put in G'; cbn in G'. rewrite (nth_upd_same _ _ _ _ Hg) in G'. injection G' as <-. discriminate P'.
+      * unfold get, put in G'; cbn in G'. rewrite nth_upd_other in G' by assumption.
+        destruct (HP c' x' G' P') as [A|[_ A]]; rewrite Esp in A; cbn in A; [|discriminate]. injection A as <-. congruence.
+  - (* LDropClose *) destruct (sp s) eqn:Esp; try discriminate. destruct (get s c) as [x|] eqn:Hg; try discriminate.
+    destruct (Nat.eqb c c0) eqn:E; try discriminate. apply Nat.eqb_eq in E. subst c0. injection H as <-.
+    unfold pinv in *. cbn. intros c' x' G' P'. exfalso.
+    destruct (Nat.eq_dec c c') as [->|Hne].
+    + unfold get, put in G'; cbn in G'. rewrite (nth_upd_same _ _ _ _ Hg) in G'. injection G' as <-. discriminate P'.
+    + unfold get, put in G'; cbn in G'. rewrite nth_upd_other in G' by assumption.
+      destruct (HP c' x' G' P') as [A|[_ A]]; rewrite Esp in A; cbn in A; [|discriminate]. injection A as <-. congruence.
+  - (* LDropCb *) destruct (sp s) eqn:Esp; try discriminate. destruct (get s c) as [x|] eqn:Hg; try discriminate.
+    destruct (Nat.eqb c c0) eqn:E; try discriminate. apply Nat.eqb_eq in E. subst c0. injection H as <-.
+    unfold pinv in *. cbn. intros c' x' G' P'. exfalso.
+    destruct (Nat.eq_dec c c') as [->|Hne].
+    + unfold get, put in G'; cbn in G'. rewrite (nth_upd_same _ _ _ _ Hg) in G'. injection G' as <-.
+      destruct (on_close k); discriminate P'.
+    + unfold get, put in G'; cbn in G'. rewrite nth_upd_other in G' by assumption.
+      destruct (HP c' x' G' P') as [A|[_ A]]; rewrite Esp in A; cbn in A; discriminate.
+  - (* LServeReturn *) destruct (sp s) eqn:Esp; try discriminate.
+    + assert (A : pinv v (s_sp (SReturned e) (s_lis_open false s))).
+      { unfold pinv in *; cbn. intros c x G P. destruct (HP c x G P) as [A|[_ A]]; rewrite Esp in A; discriminate. }
+      brk H; injection H as <-; exact A.
+    + destruct (v_drop_old v) eqn:Ev; [|discriminate]. brk H. injection H as <-.
+      unfold pinv; cbn. intros; right; split; [exact Ev|reflexivity].
+    + assert (A : pinv v (s_sp (SReturned e) (s_lis_open false s))).
+      { unfold pinv in *; cbn. intros c x G P. destruct (HP c x G P) as [A|[_ A]]; rewrite Esp in A; discriminate. }
+      brk H; injection H as <-; exact A.
+  - cs H. brk Hy; injection Hy as <-; t_p HP Hg.
+  - cs H. brk Hy; injection Hy as <-; t_p HP Hg.
+  - cs H. brk Hy; injection Hy as <-; t_p HP Hg.
+  - cs H. brk Hy; injection Hy as <-; t_p HP Hg.
+  - cs H. brk Hy; injection Hy as <-; t_p HP Hg.
+  - cs H. brk Hy; injection Hy as <-; t_p HP Hg.
+  - cs H. brk Hy; injection Hy as <-; t_p HP Hg.
+  - destruct (get s c) as [x|] eqn:Hg; try discriminate. brk H; injection H as <-; t_p HP Hg.
+  - destruct (get s c) as [x|] eqn:Hg; try discriminate. brk H; injection H as <-; t_p HP Hg.
+  - cs H. brk Hy; injection Hy as <-; t_p HP Hg.
+  - cs H. brk Hy; injection Hy as <-; t_p HP Hg.
+  - destruct (mu s) eqn:Emu; try discriminate.
+    destruct (conn_step s c PExited _) as [s1|] eqn:E1; try discriminate. injection H as <-.
+    cs E1. injection Hy as <-. t_p HP Hg.
+  - destruct (conn_step s c PUntracked _) as [s1|] eqn:E1; try discriminate.
+    cs E1. injection Hy as <-.
+    destruct (close_guard v k && negb (on_close k)); injection H as <-; [p_same HP|].
+    destruct (close_guard v k); t_p HP Hg.
+  - brk H; injection H as <-; p_same HP.
+  - brk H; injection H as <-; p_same HP.
+  - destruct (sd s) eqn:Esd; try discriminate. destruct (get s c) as [x|] eqn:Hg; try discriminate.
+    destruct (mem_nat c todo && inmap x) eqn:E; try discriminate.
+    destruct (cst x) eqn:Ecst; try destruct (v_load_old v); injection H as <-; first [p_same HP | t_p HP Hg].
+  - destruct (sd s) eqn:Esd; try discriminate. destruct (get s c) as [x|] eqn:Hg; try discriminate.
+    destruct (Nat.eqb c c0) eqn:E; try discriminate.
+    destruct (cst x) eqn:Ecst; try destruct (v_load_old v); injection H as <-; first [p_same HP | t_p HP Hg].
+  - destruct (sd s) eqn:Esd; try discriminate. destruct (get s c) as [x|] eqn:Hg; try discriminate.
+    destruct (Nat.eqb c c0) eqn:E; try discriminate. injection H as <-; t_p HP Hg.
+  - brk H; injection H as <-; p_same HP.
+  - brk H; injection H as <-; p_same HP.
+  - brk H; injection H as <-; p_same HP.
+  - brk H; injection H as <-; p_same HP.
+  - brk H; injection H as <-; p_same HP.
+  - brk H; injection H as <-; p_same HP.
+Qed.
+
+
+Theorem reach_pinv v k s : reach v k s -> pinv v s.
+Proof.
+  induction 1 as [|s l s' _ IH H]; [unfold pinv, get; cbn; intros c x G; destruct c; discriminate|eapply pinv_step; eassumption].
+Qed.
+(* Accept is only called when every earlier connection is rejected, tracked, dropped or beyond: the
+   counter the next accept callback reads already includes every connection that was let through *)
+Theorem accept_after_track v k s c s' : reach v k s -> step v k s (LAccept c) = Some s' ->
+  forall d x, get s d = Some x -> ph x <> PAccepted.
+Proof.
+  intros R H d x G P. pose proof (reach_pinv _ _ _ R d x G P) as A.
+  unfold step in H. destruct (crashed s); [discriminate|]. destruct (sp s); try discriminate.
+  destruct A as [A|[_ A]]; discriminate.
+Qed.
+(* no accepted connection is ever left behind: while a connection is in the accepted stage serve is
+   working on it (and by serve_progress serve always has a next step) *)
+Theorem accepted_is_in_serves_hands k s c x : reach GuardNow k s -> get s c = Some x -> ph x = PAccepted ->
+  sp_conn (sp s) = Some c /\ returned (sp s) = false.
+Proof.
+  intros R G P. destruct (reach_pinv _ _ _ R c x G P) as [A|[A _]]; [|discriminate].
+  split; [exact A|]. destruct (sp s); try discriminate; reflexivity.
+Qed.
+
+(* ---------- witnesses: the behaviours before the fix: commits, as runs of the variant step functions,
+   and what the current step function does on the same schedules ---------- *)
 Definition cfg_accept_only : cfg := {| on_serve := false; on_error := false; on_accept := true; on_close := false |}.
 Definition cfg_close_only : cfg := {| on_serve := false; on_error := false; on_accept := false; on_close := true |}.
 Definition cfg_none : cfg := {| on_serve := false; on_error := false; on_accept := false; on_close := false |}.
@@ -819,24 +1200,22 @@ Proof.
   destruct (run GuardOld cfg_accept_only init old_guard_crash_run) as [s|] eqn:E; [|vm_compute in E; discriminate].
   exists s. split; [eapply run_reach; exact E|]. vm_compute in E. injection E as <-. reflexivity.
 Qed.
-(* ... and never runs the close callback in the close-only configuration *)
 Definition close_only_run : list label :=
   [LServeCb; LPublish; LAccept 0; LCtxPass 0; LTrack 0; LConnRead 0 REof; LConnLeave 0; LConnExit 0; LUntrack 0; LCloseCb 0].
 Lemma old_guard_skips_close_cb : exists s x, reach GuardOld cfg_close_only s /\ get s 0 = Some x /\ ph x = PDone /\ close_cb x = 0.
 Proof.
   destruct (run GuardOld cfg_close_only init close_only_run) as [s|] eqn:E; [|vm_compute in E; discriminate].
-  exists s. vm_compute in E. injection E as <-. eexists. split; [apply (run_reach _ _ close_only_run); reflexivity|].
+  exists s. vm_compute in E. injection E as <-. eexists. split; [apply (run_reach _ _ close_only_run); vm_compute; reflexivity|].
   split; [reflexivity|]. split; reflexivity.
 Qed.
-(* the same runs under the current guard *)
 Lemma now_guard_same_runs :
   (exists s, run GuardNow cfg_accept_only init old_guard_crash_run = Some s /\ crashed s = false) /\
   (exists s x, run GuardNow cfg_close_only init close_only_run = Some s /\ get s 0 = Some x /\ close_cb x = 1).
 Proof. split; [eexists; split; [vm_compute; reflexivity|reflexivity]|eexists; eexists; split; [vm_compute; reflexivity|split; reflexivity]]. Qed.
 
-(* residual window in Shutdown: CAS(idle->closed) fails because a request is being handled, the reply is
-   written and the state stored back to idle, then Load() sees `idle` (not `handling`) and the
-   connection is closed without a CAS -- while the next request's handler has already started *)
+(* before fb6684d: CAS(idle->closed) fails because a request is being handled, the reply is written and
+   the state stored back to idle, then Load() sees `idle` (not `handling`) and the connection is closed
+   without a CAS -- while the next request's handler has already started: its reply is lost *)
 Definition load_race_run : list label :=
   [LServeCb; LPublish; LAccept 0; LCtxPass 0; LTrack 0;
    LConnRead 0 RData; LHandleStart 0; LHandlerStart 0; LHandlerEnd 0 true;
@@ -846,67 +1225,109 @@ Definition load_race_run : list label :=
    LConnRead 0 RData; LHandleStart 0; LHandlerStart 0;
    LSdClose 0;
    LHandlerEnd 0 true; LReplyWrite 0 false; LSdReturn].
-Lemma shutdown_load_race_loses_reply :
-  exists s x, reach GuardNow cfg_none s /\ sd s = SdReturned ENil /\ get s 0 = Some x /\
+Lemma old_load_race_loses_reply :
+  exists s x, reach LoadOld cfg_none s /\ sd s = SdReturned ENil /\ get s 0 = Some x /\
               lost x = 1 /\ started x = 2 /\ replied x = 1 /\ sd_via x = ViaLoadIdle.
 Proof.
-  destruct (run GuardNow cfg_none init load_race_run) as [s|] eqn:E; [|vm_compute in E; discriminate].
-  exists s. vm_compute in E. injection E as <-. eexists. split; [apply (run_reach _ _ load_race_run); reflexivity|].
+  destruct (run LoadOld cfg_none init load_race_run) as [s|] eqn:E; [|vm_compute in E; discriminate].
+  exists s. vm_compute in E. injection E as <-. eexists. split; [apply (run_reach _ _ load_race_run); vm_compute; reflexivity|].
   repeat split; reflexivity.
 Qed.
+(* now: after the failed swap the connection is looked at again in the next round; the schedule above
+   is not a run any more, and its legal continuation delivers the second reply before the close *)
+Definition load_race_run_now : list label :=
+  [LServeCb; LPublish; LAccept 0; LCtxPass 0; LTrack 0;
+   LConnRead 0 RData; LHandleStart 0; LHandlerStart 0; LHandlerEnd 0 true;
+   LSdCall; LSdBegin; LSdCas 0;
+   LReplyWrite 0 true; LHandleEnd 0;
+   LSdLoad 0;
+   LConnRead 0 RData; LHandleStart 0; LHandlerStart 0;
+   LSdPassEnd; LSdRetry; LSdCas 0; LSdLoad 0;
+   LHandlerEnd 0 true; LReplyWrite 0 true; LHandleEnd 0;
+   LSdPassEnd; LSdRetry; LSdCas 0; LSdClose 0; LSdReturn].
+Lemma now_load_race_closed :
+  run GuardNow cfg_none init load_race_run = None /\
+  exists s x, run GuardNow cfg_none init load_race_run_now = Some s /\ sd s = SdReturned ENil /\ get s 0 = Some x /\
+              lost x = 0 /\ started x = 2 /\ replied x = 2 /\ owed x = [] /\ sd_via x = ViaCas /\ sock x = false.
+Proof.
+  split; [vm_compute; reflexivity|]. eexists. eexists. split; [vm_compute; reflexivity|]. repeat split; reflexivity.
+Qed.
 
-(* a connection that Accept returned before Shutdown closed the listener, tracked after Shutdown
-   returned nil: it is served although the shutdown "succeeded" *)
+(* before c43a822: a connection that Accept returned before Shutdown closed the listener and that was
+   tracked after Shutdown returned nil was served although the shutdown "succeeded" *)
 Definition late_track_run : list label :=
   [LServeCb; LPublish; LAccept 0; LSdCall; LSdBegin; LSdReturn; LCtxPass 0; LTrack 0;
    LConnRead 0 RData; LHandleStart 0; LHandlerStart 0; LHandlerEnd 0 true; LReplyWrite 0 true; LHandleEnd 0].
-Lemma late_track_survives_shutdown :
-  exists s x, reach GuardNow cfg_none s /\ sd s = SdReturned ENil /\ get s 0 = Some x /\
+Lemma old_late_track_survives_shutdown :
+  exists s x, reach TrackOld cfg_none s /\ sd s = SdReturned ENil /\ get s 0 = Some x /\
               ph x = PIdle /\ sock x = true /\ inmap x = true /\ replied x = 1.
 Proof.
-  destruct (run GuardNow cfg_none init late_track_run) as [s|] eqn:E; [|vm_compute in E; discriminate].
-  exists s. vm_compute in E. injection E as <-. eexists. split; [apply (run_reach _ _ late_track_run); reflexivity|].
+  destruct (run TrackOld cfg_none init late_track_run) as [s|] eqn:E; [|vm_compute in E; discriminate].
+  exists s. vm_compute in E. injection E as <-. eexists. split; [apply (run_reach _ _ late_track_run); vm_compute; reflexivity|].
   repeat split; reflexivity.
 Qed.
+Definition late_track_run_now : list label :=
+  [LServeCb; LPublish; LAccept 0; LSdCall; LSdBegin; LSdReturn; LCtxPass 0; LTrack 0; LDropClose 0; LDropCb 0;
+   LServeReturn EClosed].
+Lemma now_late_track_dropped :
+  run GuardNow cfg_close_only init late_track_run = None /\
+  exists s x, run GuardNow cfg_close_only init late_track_run_now = Some s /\ sd s = SdReturned ENil /\
+              sp s = SReturned EClosed /\ get s 0 = Some x /\
+              ph x = PDropped /\ sock x = false /\ inmap x = false /\ close_cb x = 1 /\ count s = 0%Z.
+Proof.
+  split; [vm_compute; reflexivity|]. eexists. eexists. split; [vm_compute; reflexivity|]. repeat split; reflexivity.
+Qed.
 
-(* a connection accepted while the context gets cancelled is dropped by serve: neither closed nor
-   tracked nor reported to the close callback, and no step of the LTS ever touches it again *)
+(* before ac00631: a connection accepted while the context is cancelled was dropped by serve: neither
+   closed nor tracked nor reported to the close callback, and no step ever touched it again *)
 Definition accept_cancel_run : list label :=
   [LServeCb; LPublish; LAccept 0; LAcceptCb 0 1 true; LCancel; LServeReturn EClosed].
-Lemma accept_then_cancel_leaks :
-  exists s x, reach GuardNow cfg_all s /\ sp s = SReturned EClosed /\ get s 0 = Some x /\ ph x = PAccepted /\
+Lemma old_accept_then_cancel_leaks :
+  exists s x, reach DropOld cfg_all s /\ sp s = SReturned EClosed /\ get s 0 = Some x /\ ph x = PAccepted /\
               sock x = true /\ close_cb x = 0 /\
-              (forall l, label_gor l = GConn 0 -> step GuardNow cfg_all s l = None) /\
-              (forall l, label_gor l = GServe -> step GuardNow cfg_all s l = None).
+              (forall l, label_gor l = GConn 0 -> step DropOld cfg_all s l = None) /\
+              (forall l, label_gor l = GServe -> step DropOld cfg_all s l = None).
 Proof.
-  destruct (run GuardNow cfg_all init accept_cancel_run) as [s|] eqn:E; [|vm_compute in E; discriminate].
-  exists s. vm_compute in E. injection E as <-. eexists. split; [apply (run_reach _ _ accept_cancel_run); reflexivity|].
+  destruct (run DropOld cfg_all init accept_cancel_run) as [s|] eqn:E; [|vm_compute in E; discriminate].
+  exists s. vm_compute in E. injection E as <-. eexists. split; [apply (run_reach _ _ accept_cancel_run); vm_compute; reflexivity|].
   split; [reflexivity|]. split; [reflexivity|]. split; [reflexivity|]. split; [reflexivity|]. split; [reflexivity|].
   split; intros l Hl; destruct l; cbn in Hl; try discriminate; try (injection Hl as ->); try reflexivity;
     try (destruct r; reflexivity); try (destruct ok; reflexivity).
 Qed.
+Definition accept_cancel_run_now : list label :=
+  [LServeCb; LPublish; LAccept 0; LAcceptCb 0 1 true; LCancel; LCtxDone 0; LDropClose 0; LDropCb 0; LServeReturn EClosed].
+Lemma now_accept_then_cancel_closed :
+  run GuardNow cfg_all init accept_cancel_run = None /\
+  exists s x, run GuardNow cfg_all init accept_cancel_run_now = Some s /\ sp s = SReturned EClosed /\ get s 0 = Some x /\
+              ph x = PDropped /\ sock x = false /\ close_cb x = 1 /\ count s = 0%Z.
+Proof.
+  split; [vm_compute; reflexivity|]. eexists. eexists. split; [vm_compute; reflexivity|]. repeat split; reflexivity.
+Qed.
 
-(* Shutdown before serve has published the listener dereferences a nil interface *)
-Lemma shutdown_before_serve_panics :
-  exists s, run GuardNow cfg_none init [LSdCall; LSdBegin] = Some s /\ sd s = SdReturned EPanic.
+(* before 17ec04c: Shutdown before serve had published the listener dereferenced a nil interface *)
+Lemma old_shutdown_before_serve_panics :
+  exists s, run NilOld cfg_none init [LSdCall; LSdBegin] = Some s /\ sd s = SdReturned EPanic.
 Proof. eexists. split; [vm_compute; reflexivity|reflexivity]. Qed.
+Lemma now_shutdown_before_serve_ok k :
+  exists s, run GuardNow k init [LSdCall; LSdBegin; LSdReturn; LServeCb; LPublish; LServeReturn EClosed] = Some s /\
+            sd s = SdReturned ENil /\ sp s = SReturned EClosed /\ crashed s = false /\ lis_open s = false /\ conns s = [].
+Proof. eexists. split; [vm_compute; reflexivity|]. repeat split; reflexivity. Qed.
 
 (* non-vacuity: accept, track, read, handle, reply, shutdown while idle -- reaches the hypotheses of (e),
    and the connection is closed by a successful CAS with nothing owed *)
 Definition happy_run : list label :=
   [LServeCb; LPublish; LAccept 0; LAcceptCb 0 1 true; LCtxPass 0; LTrack 0;
    LConnRead 0 RData; LHandleStart 0; LHandlerStart 0; LHandlerEnd 0 true; LReplyWrite 0 true; LHandleEnd 0;
-   LSdCall; LSdBegin; LSdCas 0; LSdClose 0].
+   LSdCall; LSdBegin; LSdCas 0; LSdClose 0; LSdReturn].
 Lemma happy_run_example :
-  exists s s' x, run GuardNow cfg_all init happy_run = Some s /\ step GuardNow cfg_all s LSdReturn = Some s' /\
-                 sd s' = SdReturned ENil /\ get s' 0 = Some x /\ sd_via x = ViaCas /\ replied x = 1 /\ owed x = [] /\
-                 sock x = false /\ acc_arg x = Some 1%Z /\
-                 step GuardNow cfg_all s' (LServeReturn EClosed) <> None.
+  exists s x, run GuardNow cfg_all init happy_run = Some s /\
+              sd s = SdReturned ENil /\ get s 0 = Some x /\ sd_via x = ViaCas /\ replied x = 1 /\ owed x = [] /\
+              sock x = false /\ acc_arg x = Some 1%Z /\ in_loop (sp s) = true /\
+              step GuardNow cfg_all s (LServeReturn EClosed) <> None.
 Proof.
-  eexists. eexists. eexists. split; [vm_compute; reflexivity|]. split; [vm_compute; reflexivity|].
+  eexists. eexists. split; [vm_compute; reflexivity|].
   repeat split; try reflexivity. vm_compute. discriminate.
 Qed.
-(* ... and of (f): cancel, the AfterFunc goroutine closes the listener, serve returns ErrServerClosed *)
 Lemma cancel_example :
   exists s, run GuardNow cfg_all init [LServeCb; LPublish; LAccept 0; LAcceptCb 0 1 false; LCancel; LAfterClose] = Some s /\
             cancelled s = true /\ lis_open s = false /\
